@@ -1,4 +1,35 @@
-// L4: Bernstein-Yang safegcd (src/modular/safegcd.rs, one helper of src/modular/safegcd/boxed.rs) -- C10
+// L4: Bernstein-Yang safegcd (src/modular/safegcd.rs, `impl_limb_convert!` of src/modular/safegcd/macros.rs, one helper of
+// src/modular/safegcd/boxed.rs) -- C10
+//
+// Everything of the fixed-width safegcd code is a `body` region (verified against its contract):
+//   UnsatInt consts + add / mul / neg / shr / eq / is_negative / lowest / select / leading_zeros / bits / from_uint / to_uint,
+//   the two instantiations of `impl_limb_convert!` (//@@ macroblock), inv_mod2_62, iterations, jump, fg, de, divsteps,
+//   divsteps_vartime, SafeGcdInverter::new / norm / inv / inv_vartime / gcd / gcd_vartime, boxed::unsat_nlimbs_for_sat_nlimbs.
+//
+// Vocabulary: `UnsatInt::wf / uv / sv` (limbs <= 2^62 - 1; unsigned value; two's complement value), `wrap(v, n)` (representative
+// of v mod 2^(62 n) in the signed range), `cong(a, b, m)`, `sg_gcd` (Euclid on nat; same definition as `gcd` of l4_invmod),
+// `divstep` / `divsteps_n` / `tmat` (Bernstein-Yang division steps and their transition matrices, scaled by 2^n).
+// `jump` is specified exactly: it returns (delta_62, tmat(62)) of the divsteps started at the LOW WORDS (delta, f[0], g[0]);
+// `lemma_divsteps_congr` transfers this to every (F, G) congruent to the low words modulo 2^62 and `lemma_divsteps` gives
+// tmat(62) (F, G) = 2^62 (F_62, G_62), oddness of F, gcd(F, G) and max(|F|, |G|) preserved.
+//
+// ASSUMED (complete list):
+//  * `axiom_bernstein_yang_bound`: Theorem 11.2 of eprint 2019/266 (computer-assisted in the paper) -- external_body proof fn.
+//    `divsteps` calls it with the round count m it computed; `divsteps_vartime` uses it (with d = 62 LIMBS) only for termination.
+//  * `axiom_bernstein_yang_bound_even_f_odd_g`: EXTENSION of Theorem 11.2 to the start (1, f even, g odd) used by Uint::gcd
+//    (second external_body proof fn, reported separately; see its comment).  Not used for f_0 = 0 (proved without any axiom).
+//  * type-level: `impl_precompute_inverter_trait!` (src/uint/macros.rs) binds UNSAT_LIMBS = safegcd_nlimbs!(BITS) in the impls of
+//    `PrecomputeInverter`, which Verus cannot see: the callers carry `sg_nlimbs_ok(SAT_LIMBS, UNSAT_LIMBS)` (l4_invmod: `sg_sizes`).
+//  * `Uint::as_words` (stub: unsafe pointer cast, Limb is repr(transparent) over Word).
+//  * core methods without vstd spec: `i128::trailing_zeros`, `usize::div_ceil` (assume_specification below).
+//  * HAND COPIES (not re-extracted from /repo): the expression macro `safegcd_nlimbs!` (src/macros.rs) and the adapter
+//    `impl_limb_convert!` that routes the two invocations to the two macroblock functions (see below).
+//
+// Domains: `jump` / `fg` / `de` / `norm` are total (safety does not depend on an odd f or on a valid `inverse`); their functional
+// facts are conditional.  `divsteps(_vartime)`: f_0 odd | f_0 == 0 | g odd.  `inv(_vartime)`: modulus odd or 0 (`wf`); the
+// facts hold for an odd modulus, for 0 only totality (+ value in {0, 1}).  `gcd(_vartime)`: f odd | g odd | f == g == 0.
+// Size limits that appear as preconditions: UNSAT_LIMBS <= SG_MAX_UNSAT() = 1_413_748 (beyond it `iterations` overflows u32:
+// 49 * bits + 80 with bits up to 62 * UNSAT_LIMBS), SAT_LIMBS <= 0x3ff_fffe (usize arithmetic of the limb conversion).
 use vstd::prelude::*;
 use vstd::arithmetic::power::*;
 use vstd::arithmetic::power2::*;
@@ -13,12 +44,25 @@ use crate::l2_core::*;
 use vstd::wrapping::u64_specs as wu;
 use vstd::wrapping::i64_specs as wi;
 use vstd::std_specs::bits::*;
+use vstd::bits::*;
 
 // HAND COPY of `safegcd_nlimbs!` (src/macros.rs:21-25): an expression macro, which neither `//@@ macrofn` (needs a fn in the
 // arm) nor `//@@ macroblock` (needs a block transcriber) can extract. Used by `unsat_nlimbs_for_sat_nlimbs` below.
 macro_rules! safegcd_nlimbs {
     ($bits:expr) => {
         ($bits + 64).div_ceil(62)
+    };
+}
+
+// HAND-WRITTEN adapter (no counterpart in /repo): maps the two invocations of `impl_limb_convert!` inside
+// `UnsatInt::from_uint` / `to_uint` to calls of the two functions that `//@@ macroblock` synthesizes from the macro's
+// (only) arm in src/modular/safegcd/macros.rs (same places, passed by reference).
+macro_rules! impl_limb_convert {
+    (Word, $ib:expr, $input:expr, u64, 62, $output:expr) => {
+        limb_convert_sat_to_unsat($input, &mut $output)
+    };
+    (u64, 62, $input:expr, Word, $ob:expr, $output:expr) => {
+        limb_convert_unsat_to_sat($input, &mut $output)
     };
 }
 
@@ -490,9 +534,10 @@ impl<const SAT_LIMBS: usize, const UNSAT_LIMBS: usize> SafeGcdInverter<SAT_LIMBS
     pub open spec fn wf(&self) -> bool {
         &&& SAT_LIMBS >= 1 && sg_nlimbs_ok(SAT_LIMBS as int, UNSAT_LIMBS as int) && UNSAT_LIMBS <= SG_MAX_UNSAT()
         &&& self.modulus.wf() && self.adjuster.wf()
-        &&& self.m() % 2 == 1 && 1 <= self.m() < bp(SAT_LIMBS as nat)
-        &&& 0 <= self.adjuster.sv() <= self.m()
-        &&& 0 <= self.inverse < 0x4000_0000_0000_0000 && (self.m() * self.inverse as int) % P62() == 1
+        // the modulus is odd, or 0 (Uint::inv_mod builds the inverter for the odd part of a zero modulus; the result is discarded)
+        &&& 0 <= self.m() < bp(SAT_LIMBS as nat) && (self.m() % 2 == 1 || self.m() == 0)
+        &&& 0 <= self.adjuster.sv() && (self.m() % 2 == 1 ==> self.adjuster.sv() <= self.m()) && (self.m() == 0 ==> self.adjuster.sv() <= 1)
+        &&& 0 <= self.inverse < 0x4000_0000_0000_0000 && (self.m() % 2 == 1 ==> (self.m() * self.inverse as int) % P62() == 1)
     }
 }
 
@@ -987,6 +1032,18 @@ pub proof fn lemma_iwrap(a: i64, b: i64)
     assert((s - ps) % B() == 0);
 }
 
+/// domain in which `de` computes the documented update: M >= 1 with room, inverse of M modulo 2^62, d and e in (-2M, M]
+pub open spec fn de_pre(mm: int, inverse: int, dd: int, ee: int, n: nat) -> bool {
+    mm >= 1 && mm * B() <= q62(n) && 0 <= inverse < 0x4000_0000_0000_0000 && (mm * inverse) % P62() == 1
+    && -2 * mm < dd <= mm && -2 * mm < ee <= mm
+}
+
+/// domain in which `divsteps` maintains  d * g ≡ f * e (mod M):  M = f_0 odd with its inverse modulo 2^62, e in (-2M, M]
+pub open spec fn ds_dpre(mm: int, inverse: int, ee: int, n: nat) -> bool {
+    mm % 2 == 1 && mm >= 1 && mm * B() <= q62(n) && 0 <= inverse < 0x4000_0000_0000_0000 && (mm * inverse) % P62() == 1
+    && -2 * mm < ee <= mm
+}
+
 /// the numerator of the d/e update is divisible by 2^62
 pub proof fn lemma_de_divisible(dd: int, ee: int, mm: int, t0: int, t1: int, dl: int, el: int, cd: int, iv: int, md: int, k: int)
     requires cong(dd, dl, P62()), cong(ee, el, P62()), cong(cd, t0 * dl + t1 * el, P62()), cong(k, iv * cd + md, P62()),
@@ -1375,7 +1432,7 @@ pub proof fn lemma_jump_w(f: i64, g: i64, k: i64, mask: i64, w: i64)
 
 
 // ---- bundles for the loop of `jump` (pure integer statements; c = steps consumed, pend = pending halvings)
-pub proof fn lemma_p2_divides_mono(x: int, z: nat, r: nat)
+pub proof fn sg_p2_divides_mono(x: int, z: nat, r: nat)
     requires z <= r, x % p2(r) == 0
     ensures x % p2(z) == 0
 {
@@ -1398,24 +1455,21 @@ pub proof fn lemma_jump_tz(g: i128, r: u32, steps: i64, pend: nat)
         lemma_small_mod(0, p2(z as nat) as nat);
     } else {
         lemma_tz_ge(g, r, pend);
-        lemma_p2_divides_mono(g as int, z as nat, r as nat);
+        sg_p2_divides_mono(g as int, z as nat, r as nat);
     }
 }
 
-/// the shift part of one loop iteration
-pub proof fn lemma_jump_shift(c: nat, pend: nat, z: nat, s0: (int, int, int), dl: int, f: int, g_in: int, g: int,
+/// the shift part of one loop iteration: trajectory and matrix (a, b, r2, r3: the tracked matrix entries)
+pub proof fn lemma_jump_shift_traj(c: nat, pend: nat, z: nat, s0: (int, int, int), dl: int, f: int, g_in: int, g: int,
     a: int, b: int, r2: int, r3: int, a2: int, b2: int)
-    requires pend <= z, c + z <= 62, g_in % p2(pend) == 0, g_in % p2(z) == 0, g == g_in / p2(z),
+    requires pend <= z, g_in % p2(pend) == 0, g_in % p2(z) == 0, g == g_in / p2(z),
         divsteps_n(c + pend, s0) == (dl + pend, f, g_in / p2(pend)),
         tmat(c + pend, s0) == (p2(pend) * a, p2(pend) * b, r2, r3),
         a2 == a * p2(z), b2 == b * p2(z),
-        ab(g_in) <= P62() * p2(pend), ab(a) + ab(b) <= p2(c), ab(r2) + ab(r3) <= p2(c + pend),
     ensures divsteps_n(c + z, s0) == (dl + z, f, g), tmat(c + z, s0) == (a2, b2, r2, r3),
-        ab(g) <= P62(), ab(a2) + ab(b2) <= p2(c + z), ab(r2) + ab(r3) <= p2(c + z), p2(c + z) <= P62(),
 {
     let e = (z - pend) as nat; let pp = p2(pend); let pe = p2(e); let pz = p2(z);
-    sg_p2_add(pend, e); sg_p2_pos(pend); sg_p2_pos(e); sg_p2_pos(z); sg_p2_add(c, z); sg_p2_pos(c);
-    sg_p2_mono(c + pend, c + z); sg_p2_mono(c + z, 62); sg_p2_mono(pend, z); lemma2_to64_rest();
+    sg_p2_add(pend, e); sg_p2_pos(pend); sg_p2_pos(e); sg_p2_pos(z);
     lemma_fundamental_div_mod(g_in, pz);
     let h = g_in / pp;
     assert(g_in == pp * (pe * g) + 0) by (nonlinear_arith) requires g_in == pz * g + 0, pz == pp * pe;
@@ -1425,9 +1479,59 @@ pub proof fn lemma_jump_shift(c: nat, pend: nat, z: nat, s0: (int, int, int), dl
     lemma_ext_even(c + pend, e, s0);
     assert(c + pend + e == c + z);
     assert(pe * (pp * a) == a * pz && pe * (pp * b) == b * pz) by (nonlinear_arith) requires pz == pp * pe;
-    // bounds
+}
+
+/// the shift part of one loop iteration: bounds (a, b, r2, r3: the actual matrix entries)
+pub proof fn lemma_jump_shift_bounds(c: nat, pend: nat, z: nat, g_in: int, g: int, a: int, b: int, r2: int, r3: int, a2: int, b2: int)
+    requires pend <= z, c + z <= 62, g_in % p2(z) == 0, g == g_in / p2(z), a2 == a * p2(z), b2 == b * p2(z),
+        ab(g_in) <= P62() * p2(pend), ab(a) + ab(b) <= p2(c), ab(r2) + ab(r3) <= p2(c + pend),
+    ensures ab(g) <= P62(), ab(a2) + ab(b2) <= p2(c + z), ab(r2) + ab(r3) <= p2(c + z), p2(c + z) <= P62(), g_in == g * p2(z),
+{
+    let pp = p2(pend); let pz = p2(z);
+    sg_p2_pos(pend); sg_p2_pos(z); sg_p2_add(c, z); sg_p2_pos(c);
+    sg_p2_mono(c + pend, c + z); sg_p2_mono(c + z, 62); sg_p2_mono(pend, z); lemma2_to64_rest();
+    lemma_fundamental_div_mod(g_in, pz);
+    assert(g_in == g * pz) by (nonlinear_arith) requires g_in == pz * g + 0;
     assert(ab(g) <= P62()) by (nonlinear_arith) requires g_in == pz * g, ab(g_in) <= P62() * pp, pz >= pp, pp > 0;
     assert(ab(a * pz) + ab(b * pz) <= p2(c) * pz) by (nonlinear_arith) requires ab(a) + ab(b) <= p2(c), pz > 0;
+}
+
+/// number of trailing zero bits of a positive integer
+pub open spec fn tzn(x: int) -> nat
+    decreases x
+{ if x <= 0 || x % 2 != 0 { 0 } else { 1 + tzn(x / 2) } }
+
+pub proof fn lemma_tzn(x: int, c: nat, y: int)
+    requires x == y * p2(c), y % 2 == 1, y > 0
+    ensures tzn(x) == c
+    decreases c
+{
+    sg_p2_succ(0);
+    if c == 0 {
+        assert(y * p2(0) == y) by (nonlinear_arith) requires p2(0) == 1;
+    } else {
+        sg_p2_succ((c - 1) as nat); sg_p2_pos((c - 1) as nat);
+        let h = y * p2((c - 1) as nat);
+        assert(x == 2 * h) by (nonlinear_arith) requires x == y * p2(c), p2(c) == 2 * p2((c - 1) as nat), h == y * p2((c - 1) as nat);
+        assert(h > 0) by (nonlinear_arith) requires h == y * p2((c - 1) as nat), y > 0, p2((c - 1) as nat) > 0;
+        lemma_tzn(h, (c - 1) as nat, y);
+    }
+}
+
+/// f even, g odd, 2^k | -f + w g (k >= 1)  ==>  w even
+pub proof fn lemma_w_even(f: int, g: int, w: int, k: nat)
+    requires k >= 1, f % 2 == 0, g % 2 == 1, (-f + w * g) % p2(k) == 0
+    ensures w % 2 == 0
+{
+    sg_p2_succ((k - 1) as nat); sg_p2_pos(k);
+    lemma_fundamental_div_mod(-f + w * g, p2(k));
+    let m = (-f + w * g) / p2(k); let h = p2((k - 1) as nat);
+    if w % 2 != 0 {
+        let i = w / 2; let j = g / 2; let e = f / 2;
+        assert(w * g == 2 * (2 * i * j + i + j) + 1) by (nonlinear_arith) requires w == 2 * i + 1, g == 2 * j + 1;
+        assert(-f + w * g == 2 * (h * m)) by (nonlinear_arith) requires -f + w * g == p2(k) * m + 0, p2(k) == 2 * h;
+        assert(false);
+    }
 }
 
 /// preconditions of the two left shifts
@@ -1475,6 +1579,435 @@ pub proof fn lemma_jump_w_bounds(c: nat, k: nat, w: int, a: int, b: int, r2: int
     assert(pc * (pk - 1) + pc == pc * pk) by (nonlinear_arith);
     assert(ab(w * f) <= P62() * (pk - 1)) by (nonlinear_arith) requires ab(f) <= P62(), 0 <= w <= pk - 1;
     assert(P62() * (pk - 1) + P62() == P62() * pk) by (nonlinear_arith);
+}
+
+
+
+// ================================================================ limb conversion (impl_limb_convert!): radix 2^64 <-> radix 2^62
+/// value of the first n limbs in radix 2^r
+pub open spec fn rv(s: Seq<u64>, n: nat, r: nat) -> int
+    decreases n
+{ if n == 0 { 0 } else { rv(s, (n - 1) as nat, r) + s[n - 1] as int * p2(r * ((n - 1) as nat)) } }
+/// the same with every limb reduced modulo 2^r (bits above r are garbage)
+pub open spec fn rvm(s: Seq<u64>, n: nat, r: nat) -> int
+    decreases n
+{ if n == 0 { 0 } else { rvm(s, (n - 1) as nat, r) + (s[n - 1] as int % p2(r)) * p2(r * ((n - 1) as nat)) } }
+
+pub proof fn lemma_rv_uval(s: Seq<u64>, n: nat)
+    ensures rv(s, n, 62) == uval(s, n)
+    decreases n
+{ if n > 0 { lemma_rv_uval(s, (n - 1) as nat); lemma_q62_pow2((n - 1) as nat); } }
+
+pub proof fn lemma_rv_val(w: Seq<u64>, l: Seq<Limb>, n: nat)
+    requires forall|k: int| 0 <= k < n ==> w[k] == l[k].0
+    ensures rv(w, n, 64) == val(l, n)
+    decreases n
+{ if n > 0 { lemma_rv_val(w, l, (n - 1) as nat); lemma_bp_pow2((n - 1) as nat); } }
+
+pub proof fn lemma_rv_bound(s: Seq<u64>, n: nat, r: nat)
+    requires forall|k: int| 0 <= k < n ==> (#[trigger] s[k] as int) < p2(r)
+    ensures 0 <= rv(s, n, r) < p2(r * n)
+    decreases n
+{
+    sg_p2_succ(0);
+    if n > 0 {
+        let m = (n - 1) as nat;
+        lemma_rv_bound(s, m, r);
+        sg_p2_add(r * m, r); sg_p2_pos(r * m);
+        assert(r * m + r == r * n) by (nonlinear_arith) requires m + 1 == n;
+        let x = s[n - 1] as int; let p = p2(r * m); let pr = p2(r);
+        assert((s[m as int] as int) < p2(r));
+        assert(0 <= x * p <= (pr - 1) * p) by (nonlinear_arith) requires 0 <= x <= pr - 1, p > 0;
+        assert((pr - 1) * p == p * pr - p) by (nonlinear_arith);
+    }
+}
+
+pub proof fn lemma_rvm_update(s: Seq<u64>, n: nat, r: nat, ko: nat, v: u64)
+    requires ko < n, n <= s.len()
+    ensures rvm(s.update(ko as int, v), n, r) == rvm(s, n, r) + ((v as int % p2(r)) - (s[ko as int] as int % p2(r))) * p2(r * ko)
+    decreases n
+{
+    let t = s.update(ko as int, v);
+    let m = (n - 1) as nat;
+    if m == ko {
+        lemma_rvm_ext(s, t, m, r);
+        let a = v as int % p2(r); let b = s[ko as int] as int % p2(r); let p = p2(r * ko);
+        assert(a * p == b * p + (a - b) * p) by (nonlinear_arith);
+    } else {
+        lemma_rvm_update(s, m, r, ko, v);
+    }
+}
+
+pub proof fn lemma_rvm_ext(s: Seq<u64>, t: Seq<u64>, n: nat, r: nat)
+    requires forall|k: int| 0 <= k < n ==> s[k] == t[k]
+    ensures rvm(s, n, r) == rvm(t, n, r)
+    decreases n
+{ if n > 0 { lemma_rvm_ext(s, t, (n - 1) as nat, r); } }
+
+pub proof fn lemma_rvm_rv(s: Seq<u64>, t: Seq<u64>, n: nat, r: nat)
+    requires forall|k: int| 0 <= k < n ==> t[k] as int == s[k] as int % p2(r)
+    ensures rv(t, n, r) == rvm(s, n, r)
+    decreases n
+{ if n > 0 { lemma_rvm_rv(s, t, (n - 1) as nat, r); } }
+
+/// the bits [bits, bits + step) of a number
+pub open spec fn chunk(nv: int, bits: nat, step: nat) -> int { (nv / p2(bits)) % p2(step) }
+
+pub proof fn lemma_chunk_add_multiple(nv: int, m: int, bits: nat, step: nat)
+    ensures chunk(nv + m * p2(bits + step), bits, step) == chunk(nv, bits, step)
+{
+    let pb = p2(bits); let ps = p2(step);
+    sg_p2_add(bits, step); sg_p2_pos(bits); sg_p2_pos(step);
+    lemma_fundamental_div_mod(nv, pb); lemma_mod_bound(nv, pb);
+    let q = nv / pb; let r = nv % pb;
+    assert(nv + m * (pb * ps) == pb * (q + m * ps) + r) by (nonlinear_arith) requires nv == pb * q + r;
+    lemma_fundamental_div_mod_converse(nv + m * p2(bits + step), pb, q + m * ps, r);
+    lemma_mod_multiples_vanish(m, q, ps);
+    assert(ps * m + q == q + m * ps) by (nonlinear_arith);
+}
+
+/// the bits [r j + i, r j + i + step) of rv(s, n, r) are the bits [i, i + step) of limb j   (i + step <= r)
+pub proof fn lemma_chunk_limb(s: Seq<u64>, n: nat, r: nat, j: nat, i: nat, step: nat)
+    requires j < n, i + step <= r, forall|k: int| 0 <= k < n ==> (#[trigger] s[k] as int) < p2(r)
+    ensures chunk(rv(s, n, r), r * j + i, step) == (s[j as int] as int / p2(i)) % p2(step)
+    decreases n
+{
+    let m = (n - 1) as nat;
+    let bits = r * j + i;
+    if m == j {
+        lemma_rv_bound(s, j, r);
+        let lo = rv(s, j, r); let x = s[j as int] as int; let pj = p2(r * j); let pi = p2(i);
+        sg_p2_add(r * j, i); sg_p2_pos(r * j); sg_p2_pos(i);
+        // nv / (pj * pi) == (nv / pj) / pi, nv / pj == x
+        let nv = lo + x * pj;
+        assert(nv == pj * x + lo) by (nonlinear_arith) requires nv == lo + x * pj;
+        lemma_fundamental_div_mod_converse(nv, pj, x, lo);
+        assert(0 <= nv) by (nonlinear_arith) requires nv == lo + x * pj, lo >= 0, x >= 0, pj > 0;
+        lemma_div_denominator(nv, pj, pi);
+    } else {
+        lemma_chunk_limb(s, m, r, j, i, step);
+        // the top limb contributes a multiple of 2^(bits + step)
+        let e = (r * m - (bits + step)) as nat;
+        assert(r * m >= r * (j + 1)) by (nonlinear_arith) requires m >= j + 1;
+        assert(r * (j + 1) == r * j + r) by (nonlinear_arith);
+        sg_p2_add(bits + step, e);
+        let x = s[m as int] as int;
+        assert(x * p2(r * m) == (x * p2(e)) * p2(bits + step)) by (nonlinear_arith) requires p2(r * m) == p2(bits + step) * p2(e);
+        lemma_chunk_add_multiple(rv(s, m, r), x * p2(e), bits, step);
+    }
+}
+
+/// invariant of the copy loop after `bits` bits: the reduced output limbs hold nv mod 2^bits, nothing else was written
+pub open spec fn conv_inv(nv: int, out: Seq<u64>, n_out: nat, ob: nat, bits: nat) -> bool {
+    &&& rvm(out, n_out, ob) == nv % p2(bits)
+    &&& forall|k: int| 0 <= k < n_out && ob * k >= bits ==> out[k] == 0
+    &&& (bits / ob < n_out ==> (out[(bits / ob) as int] as int % p2(ob)) < p2(bits % ob))
+}
+
+pub proof fn lemma_conv_init(nv: int, out: Seq<u64>, n_out: nat, ob: nat)
+    requires ob >= 1, forall|k: int| 0 <= k < n_out ==> out[k] == 0
+    ensures conv_inv(nv, out, n_out, ob, 0)
+{
+    sg_p2_succ(0); sg_p2_pos(ob);
+    lemma_rvm_zero(out, n_out, ob);
+    assert(nv % 1 == 0);
+    assert(0nat / ob == 0 && 0nat % ob == 0);
+    if 0 < n_out { assert(out[0] == 0); lemma_small_mod(0, p2(ob) as nat); }
+}
+
+pub proof fn lemma_rvm_zero(s: Seq<u64>, n: nat, r: nat)
+    requires forall|k: int| 0 <= k < n ==> s[k] == 0
+    ensures rvm(s, n, r) == 0
+    decreases n
+{
+    if n > 0 {
+        lemma_rvm_zero(s, (n - 1) as nat, r);
+        sg_p2_pos(r); lemma_small_mod(0, p2(r) as nat);
+        assert(0 * p2(r * ((n - 1) as nat)) == 0);
+    }
+}
+
+/// one iteration of the copy loop
+pub proof fn lemma_conv_step(nv: int, inp: Seq<u64>, n_in: nat, ib: nat, out: Seq<u64>, n_out: nat, ob: nat, bits: nat, step: nat, newv: u64)
+    requires 1 <= ib <= 64, 1 <= ob <= 64, nv == rv(inp, n_in, ib), n_out <= out.len(),
+        forall|k: int| 0 <= k < n_in ==> (#[trigger] inp[k] as int) < p2(ib),
+        bits / ib < n_in, bits / ob < n_out, conv_inv(nv, out, n_out, ob, bits),
+        step == min_int(ib - bits % ib, ob - bits % ob),
+        (newv as int % p2(ob)) == (out[(bits / ob) as int] as int % p2(ob))
+            + p2(bits % ob) * ((inp[(bits / ib) as int] as int / p2(bits % ib)) % p2((ob - bits % ob) as nat))
+    ensures conv_inv(nv, out.update((bits / ob) as int, newv), n_out, ob, bits + step), step >= 1
+{
+    let j = bits / ib; let i = bits % ib; let ko = bits / ob; let o = bits % ob;
+    let x = inp[j as int] as int; let y = x / p2(i);
+    let out2 = out.update(ko as int, newv); let bits2 = bits + step;
+    lemma_fundamental_div_mod(bits as int, ib as int); lemma_fundamental_div_mod(bits as int, ob as int);
+    lemma_mod_bound(bits as int, ib as int); lemma_mod_bound(bits as int, ob as int);
+    assert(bits == ib * j + i && bits == ob * ko + o);
+    sg_p2_pos(i); sg_p2_pos(o); sg_p2_pos(step); sg_p2_pos(bits); sg_p2_pos(ob); sg_p2_pos((ob - o) as nat);
+    // y < 2^(ib - i)
+    assert((inp[j as int] as int) < p2(ib));
+    sg_p2_add(i, (ib - i) as nat);
+    lemma_fundamental_div_mod(x, p2(i)); lemma_mod_bound(x, p2(i));
+    assert(0 <= y < p2((ib - i) as nat)) by (nonlinear_arith)
+        requires y == x / p2(i), 0 <= x < p2(i) * p2((ib - i) as nat), p2(i) > 0, x == p2(i) * (x / p2(i)) + x % p2(i), 0 <= x % p2(i);
+    // the chunk written equals the chunk of nv
+    let c1 = y % p2((ob - o) as nat);
+    if step == ob - o { } else {
+        sg_p2_mono(step, (ob - o) as nat);
+        lemma_small_mod(y as nat, p2(step) as nat); lemma_small_mod(y as nat, p2((ob - o) as nat) as nat);
+    }
+    assert(c1 == y % p2(step));
+    lemma_chunk_limb(inp, n_in, ib, j, i, step);
+    assert(chunk(nv, bits, step) == c1);
+    lemma_mod_bound(y, p2(step));
+    // nv mod 2^(bits + step)
+    lemma_rv_bound(inp, n_in, ib);
+    sg_p2_add(bits, step);
+    lemma_breakdown(nv, p2(bits), p2(step));
+    // the output value
+    lemma_rvm_update(out, n_out, ob, ko, newv);
+    sg_p2_add(o, ob * ko);
+    assert(o + ob * ko == bits);
+    let po = p2(o); let pk = p2(ob * ko);
+    assert((po * c1) * pk == p2(bits) * c1) by (nonlinear_arith) requires p2(bits) == po * pk;
+    assert(rvm(out2, n_out, ob) == nv % p2(bits2));
+    // untouched limbs
+    assert forall|k: int| 0 <= k < n_out && ob * k >= bits2 implies out2[k] == 0 by {
+        assert(ob * k > ob * ko);
+        assert(k != ko) by (nonlinear_arith) requires ob * k > ob * ko;
+    }
+    // the partially filled limb
+    if o + step == ob {
+        assert(bits2 == ob * (ko + 1) + 0) by (nonlinear_arith) requires bits2 == ob * ko + o + step, o + step == ob;
+        lemma_fundamental_div_mod_converse(bits2 as int, ob as int, (ko + 1) as int, 0);
+        sg_p2_succ(0);
+        if ko + 1 < n_out {
+            assert(ob * (ko + 1) >= bits) by (nonlinear_arith) requires bits == ob * ko + o, o < ob;
+            assert(out[(ko + 1) as int] == 0);
+            lemma_small_mod(0, p2(ob) as nat);
+        }
+    } else {
+        lemma_fundamental_div_mod_converse(bits2 as int, ob as int, ko as int, (o + step) as int);
+        sg_p2_add(o, step);
+        assert(po + po * c1 <= po * p2(step)) by (nonlinear_arith) requires 0 <= c1 <= p2(step) - 1, po > 0;
+    }
+}
+
+/// the word-level update  new = old | ((x >> i) << o)  on the reduced limb (ob = 62: bits 62, 63 are garbage; ob = 64)
+pub proof fn lemma_conv_word(oldv: u64, x: u64, i: u32, o: u32, ob: nat, newv: u64)
+    requires i < 64, o < ob, ob == 62 || ob == 64, newv == oldv | ((x >> i) << o), (oldv as int % p2(ob)) < p2(o as nat)
+    ensures (newv as int % p2(ob)) == (oldv as int % p2(ob)) + p2(o as nat) * ((x as int / p2(i as nat)) % p2((ob - o) as nat))
+{
+    lemma2_to64(); lemma2_to64_rest();
+    let y = x >> i; let p = y << o;
+    lemma_u64_shr_div(x, i); lemma_u64_shl_mod(y, o);
+    let mk: u64 = if ob == 62 { 0x3fff_ffff_ffff_ffffu64 } else { 0xffff_ffff_ffff_ffffu64 };
+    let a = oldv & mk; let pm = p & mk; let nm = newv & mk;
+    if ob == 62 {
+        assert(oldv & 0x3fff_ffff_ffff_ffffu64 == oldv % 0x4000_0000_0000_0000u64 && p & 0x3fff_ffff_ffff_ffffu64 == p % 0x4000_0000_0000_0000u64
+            && newv & 0x3fff_ffff_ffff_ffffu64 == newv % 0x4000_0000_0000_0000u64) by (bit_vector);
+    } else {
+        assert(oldv & 0xffff_ffff_ffff_ffffu64 == oldv && p & 0xffff_ffff_ffff_ffffu64 == p && newv & 0xffff_ffff_ffff_ffffu64 == newv) by (bit_vector);
+        lemma_small_mod(oldv as nat, p2(64) as nat); lemma_small_mod(p as nat, p2(64) as nat); lemma_small_mod(newv as nat, p2(64) as nat);
+    }
+    assert(a as int == oldv as int % p2(ob) && pm as int == p as int % p2(ob) && nm as int == newv as int % p2(ob));
+    // a has no bit at or above o
+    lemma_u64_shr_div(a, o); sg_p2_pos(o as nat);
+    lemma_basic_div(a as int, p2(o as nat));
+    assert(nm as int == a as int + pm as int) by (bit_vector)
+        requires (a >> o) == 0, o < 64, a == oldv & mk, pm == p & mk, nm == newv & mk, newv == oldv | p, p == y << o;
+    // pm == 2^o * (y mod 2^(ob - o))
+    let yi = y as int; let po = p2(o as nat); let pc = p2((ob - o) as nat);
+    sg_p2_add(o as nat, (ob - o) as nat); sg_p2_pos((ob - o) as nat); sg_p2_pos(ob);
+    assert(o as nat + (ob - o) as nat == ob);
+    if ob == 62 { lemma_mod_mod(yi * po, p2(62), 4); assert(p2(62) * 4 == B()); } else { assert(p2(64) == B()); }
+    assert(pm as int == (yi * po) % p2(ob));
+    assert(yi * po == po * yi) by (nonlinear_arith);
+    lemma_truncate_middle(yi, po, pc);
+}
+
+
+
+// ================================================================ rounds of 62 divsteps in `divsteps` / `divsteps_vartime`
+/// EXTENSION of Theorem 11.2 to the start state (1, f even, g odd), NOT in the paper (second, separately reported assumption;
+/// `external_body` like `axiom_bernstein_yang_bound`).  `Uint::gcd` calls `SafeGcdInverter::gcd` with a possibly even first
+/// argument and an odd second one.  The first step of the code then swaps to the odd value and the run coincides with the divstep
+/// trajectory started at (1, f + g, g) (proved: `jump`, `lemma_round_even_first`).  f + g is odd and < 2^(d+1), so Theorem 11.2 in
+/// its step-count form gives g_n = 0 for n >= iterations(d + 1); the code performs 62 * m >= iterations(d + 1) divsteps for
+/// m >= iterations(d) (62x what the theorem needs).  Stated in the round-count form used for `axiom_bernstein_yang_bound`.
+#[verifier::external_body]
+pub proof fn axiom_bernstein_yang_bound_even_f_odd_g(f: int, g: int, d: nat, m: nat)
+    requires f % 2 == 0, g % 2 == 1, 0 <= f < p2(d), 0 <= g < p2(d), m >= sg_iterations(d as int)
+    ensures divsteps_n(62 * m, (1, f + g, g)).2 == 0
+{ }
+
+pub proof fn lemma_igcd_add(a: int, b: int)
+    ensures igcd(a + b, b) == igcd(a, b)
+{
+    assert forall|d: int| d > 0 implies (#[trigger] cdiv(d, a + b, b)) == cdiv(d, a, b) by {
+        if b % d == 0 {
+            lemma_mod_add_mult(d, a, b, 1); assert(a + 1 * b == a + b);
+        }
+    }
+    lemma_igcd_eq(a + b, b, a, b);
+}
+
+pub proof fn lemma_tzn_props(x: int)
+    requires x > 0
+    ensures x % p2(tzn(x)) == 0, (x / p2(tzn(x))) % 2 == 1, p2(tzn(x)) <= x
+    decreases x
+{
+    sg_p2_succ(0);
+    if x % 2 != 0 {
+        assert(tzn(x) == 0);
+        assert(x % 1 == 0 && x / 1 == x);
+    } else {
+        let h = x / 2;
+        lemma_tzn_props(h);
+        let c = tzn(h);
+        assert(tzn(x) == c + 1);
+        sg_p2_succ(c); sg_p2_pos(c);
+        lemma_fundamental_div_mod(h, p2(c));
+        let y = h / p2(c);
+        assert(x == p2(c + 1) * y + 0) by (nonlinear_arith) requires x == 2 * h, h == p2(c) * y + 0, p2(c + 1) == 2 * p2(c);
+        lemma_fundamental_div_mod_converse(x, p2(c + 1), y, 0);
+    }
+}
+
+/// start (1, M + x, x) with M even, x odd: from the first step on max(|f|, |g|) <= max(M, x), f is odd, gcd(f, g) = gcd(M, x)
+pub proof fn lemma_even_start(n: nat, mm: int, x: int)
+    requires n >= 1, mm % 2 == 0, mm >= 0, x % 2 == 1, x > 0
+    ensures ab(divsteps_n(n, (1, mm + x, x)).1) <= max_int(mm, x), ab(divsteps_n(n, (1, mm + x, x)).2) <= max_int(mm, x),
+        divsteps_n(n, (1, mm + x, x)).1 % 2 == 1,
+        igcd(divsteps_n(n, (1, mm + x, x)).1, divsteps_n(n, (1, mm + x, x)).2) == igcd(mm, x)
+{
+    let s0 = (1int, mm + x, x);
+    let s1 = divsteps_n(1, s0);
+    assert(divsteps_n(0, s0) == s0);
+    assert(s1 == divstep(s0));
+    assert(s1 == (0int, x, (x - (mm + x)) / 2));
+    lemma_divsteps_add(1, (n - 1) as nat, s0);
+    assert(1 + (n - 1) as nat == n);
+    lemma_divsteps((n - 1) as nat, s1, max_int(mm, x));
+    lemma_divsteps(1, s0, mm + x);
+    lemma_igcd_add(mm, x);
+}
+
+/// a round in the tracked mode: (delta, F, G) is a point of the trajectory from s0, F odd
+pub proof fn lemma_round_normal(n0: nat, s0: (int, int, int), bnd: int, st: (int, int, int), f0w: int, g0w: int,
+    d2: int, tm: (int, int, int, int), f2: int, g2: int)
+    requires s0.1 % 2 == 1, ab(s0.1) <= bnd, ab(s0.2) <= bnd, st == divsteps_n(n0, s0),
+        cong(st.1, f0w, P62()), cong(st.2, g0w, P62()), f0w % 2 == 1,
+        d2 == divsteps_n(62, (st.0, f0w, g0w)).0, tm == tmat(62, (st.0, f0w, g0w)),
+        f2 == (tm.0 * st.1 + tm.1 * st.2) / P62(), g2 == (tm.2 * st.1 + tm.3 * st.2) / P62()
+    ensures (d2, f2, g2) == divsteps_n(n0 + 62, s0), ab(f2) <= bnd, ab(g2) <= bnd, f2 % 2 == 1,
+        tm.0 * st.1 + tm.1 * st.2 == P62() * f2, tm.2 * st.1 + tm.3 * st.2 == P62() * g2
+{
+    lemma2_to64_rest();
+    assert(p2(62) == P62());
+    lemma_divsteps(n0, s0, bnd);
+    lemma_divsteps_congr(62, 62, st, (st.0, f0w, g0w));
+    lemma_divsteps(62, st, bnd);
+    lemma_divsteps_add(n0, 62, s0);
+    let nx = divsteps_n(62, st);
+    lemma_div_multiples_vanish(nx.1, P62()); lemma_div_multiples_vanish(nx.2, P62());
+}
+
+/// the first round of a run that starts with an even f = M and an odd g = x
+pub proof fn lemma_round_even_first(mm: int, x: int, f0w: int, g0w: int, d2: int, tm: (int, int, int, int), f2: int, g2: int)
+    requires mm % 2 == 0, mm >= 0, x % 2 == 1, x > 0, cong(mm, f0w, P62()), cong(x, g0w, P62()), f0w % 2 == 0, g0w % 2 == 1,
+        d2 == divsteps_n(62, (1, f0w + g0w, g0w)).0,
+        (tm.0, tm.1 - tm.0, tm.2, tm.3 - tm.2) == tmat(62, (1, f0w + g0w, g0w)),
+        f2 == (tm.0 * mm + tm.1 * x) / P62(), g2 == (tm.2 * mm + tm.3 * x) / P62()
+    ensures (d2, f2, g2) == divsteps_n(62, (1, mm + x, x)), ab(f2) <= max_int(mm, x), ab(g2) <= max_int(mm, x), f2 % 2 == 1
+{
+    lemma2_to64_rest();
+    assert(p2(62) == P62());
+    let s0 = (1int, mm + x, x); let zt = (1int, f0w + g0w, g0w);
+    lemma_cong_add(mm, f0w, x, g0w, P62());
+    lemma_divsteps_congr(62, 62, s0, zt);
+    lemma_divsteps(62, s0, mm + x);
+    let nx = divsteps_n(62, s0); let tt = tmat(62, s0);
+    let t0 = tm.0; let t1 = tm.1; let t2 = tm.2; let t3 = tm.3;
+    assert(t0 * (mm + x) + (t1 - t0) * x == t0 * mm + t1 * x) by (nonlinear_arith);
+    assert(t2 * (mm + x) + (t3 - t2) * x == t2 * mm + t3 * x) by (nonlinear_arith);
+    lemma_div_multiples_vanish(nx.1, P62()); lemma_div_multiples_vanish(nx.2, P62());
+    lemma_even_start(62, mm, x);
+}
+
+/// a round with f = 0 (zero modulus) before the swap: either 62 halvings of g, or z halvings, the swap, 62 - z idle steps
+pub proof fn lemma_round_zero_pre(gg: int, g0w: int, ee: int, dl: int, d2: int, tm: (int, int, int, int),
+    f2: int, g2: int, dn: int, en: int)
+    requires cong(gg, g0w, P62()), 0 <= g0w < P62(), gg >= 0, 0 <= ee <= 1,
+        g0w == 0 ==> (d2 == dl + 62 && tm == (P62(), 0int, 0int, 1int)),
+        g0w != 0 ==> (tzn(g0w) <= 61 && d2 == 62 - 2 * tzn(g0w) - dl && tm == (0int, p2((62 - tzn(g0w)) as nat), -p2(tzn(g0w)), 0int)),
+        f2 == (tm.0 * 0 + tm.1 * gg) / P62(), g2 == (tm.2 * 0 + tm.3 * gg) / P62(),
+        dn == (tm.0 * 0 + tm.1 * ee) / P62(), en == (tm.2 * 0 + tm.3 * ee) / P62()
+    ensures g0w == 0 ==> (f2 == 0 && g2 * P62() == gg && dn == 0 && en == 0),
+        g0w != 0 ==> (g2 == 0 && f2 % 2 == 1 && 0 < f2 <= gg && (gg % 2 == 1 ==> f2 == gg) && 0 <= dn <= 1 && en == 0)
+{
+    lemma2_to64_rest();
+    let k = lemma_cong_wit(gg, g0w, P62());
+    if g0w == 0 {
+        assert(gg == P62() * k + 0) by (nonlinear_arith) requires gg - g0w == k * P62(), g0w == 0;
+        lemma_fundamental_div_mod_converse(gg, P62(), k, 0);
+        assert(0 * gg == 0 && 1 * gg == gg && 0 * ee == 0 && 1 * ee == ee && P62() * 0 == 0 && 0 * 0 == 0);
+        lemma_basic_div(ee, P62());
+    } else {
+        let c = tzn(g0w); let pc = p2(c); let pr = p2((62 - c) as nat);
+        lemma_tzn_props(g0w);
+        sg_p2_add(c, (62 - c) as nat); sg_p2_pos(c); sg_p2_pos((62 - c) as nat);
+        assert(pc * pr == P62());
+        lemma_fundamental_div_mod(g0w, pc);
+        let y0 = g0w / pc;
+        // gg = pc * y with y = y0 + pr * k odd
+        let y = y0 + pr * k;
+        assert(gg == pc * y) by (nonlinear_arith) requires gg - g0w == k * P62(), g0w == pc * y0 + 0, pc * pr == P62(), y == y0 + pr * k;
+        sg_p2_succ((61 - c) as nat);
+        assert(pr * k == 2 * (p2((61 - c) as nat) * k)) by (nonlinear_arith) requires pr == 2 * p2((61 - c) as nat);
+        assert(y % 2 == 1);
+        assert(pr * gg == P62() * y + 0) by (nonlinear_arith) requires gg == pc * y, pc * pr == P62();
+        lemma_fundamental_div_mod_converse(pr * gg, P62(), y, 0);
+        assert(0 * 0 == 0 && -pc * 0 == 0 && 0 * gg == 0 && 0 * ee == 0);
+        assert(y > 0 && y <= gg) by (nonlinear_arith) requires gg == pc * y, pc >= 1, gg >= 0, y % 2 == 1;
+        if gg % 2 == 1 {
+            if c > 0 {
+                sg_p2_succ((c - 1) as nat);
+                assert(gg == 2 * (p2((c - 1) as nat) * y)) by (nonlinear_arith) requires gg == pc * y, pc == 2 * p2((c - 1) as nat);
+                assert(false);
+            }
+            sg_p2_succ(0);
+            assert(gg == y) by (nonlinear_arith) requires gg == pc * y, pc == 1;
+        }
+        // dn = floor(pr * ee / 2^62) in {0, 1}
+        assert(pr <= P62()) by (nonlinear_arith) requires pc * pr == P62(), pc >= 1, pr >= 1;
+        if ee == 0 { assert(pr * ee == 0) by (nonlinear_arith) requires ee == 0; }
+        else {
+            assert(pr * ee == pr) by (nonlinear_arith) requires ee == 1;
+            if pr == P62() { lemma_div_multiples_vanish(1, P62()); } else { lemma_basic_div(pr, P62()); }
+        }
+        lemma_basic_div(0, P62());
+    }
+}
+
+/// a round with f odd and g = 0: nothing changes (62 halvings of 0)
+pub proof fn lemma_round_g_zero(dl: int, ff: int, f0w: int, dd: int, ee: int, d2: int, tm: (int, int, int, int), f2: int, g2: int, dn: int, en: int)
+    requires f0w % 2 == 1, 0 <= ee <= 1,
+        d2 == divsteps_n(62, (dl, f0w, 0int)).0, tm == tmat(62, (dl, f0w, 0int)),
+        f2 == (tm.0 * ff + tm.1 * 0) / P62(), g2 == (tm.2 * ff + tm.3 * 0) / P62(),
+        dn == (tm.0 * dd + tm.1 * ee) / P62(), en == (tm.2 * dd + tm.3 * ee) / P62()
+    ensures d2 == dl + 62, f2 == ff, g2 == 0, dn == dd, en == 0
+{
+    lemma2_to64_rest();
+    let zt = (dl, f0w, 0int);
+    assert(divsteps_n(0, zt) == zt && tmat(0, zt) == (1int, 0int, 0int, 1int));
+    sg_p2_pos(62); lemma_small_mod(0, p2(62) as nat);
+    lemma_ext_even(0, 62, zt);
+    assert(0nat + 62nat == 62nat);
+    assert(tm == (P62(), 0int, 0int, 1int)) by { assert(p2(62) * 1 == P62() && p2(62) * 0 == 0); }
+    assert(0 * ff == 0 && 1 * 0 == 0 && 0 * 0 == 0 && 0 * ee == 0 && 0 * dd == 0 && 1 * ee == ee);
+    lemma_div_multiples_vanish(ff, P62()); lemma_div_multiples_vanish(dd, P62());
+    lemma_basic_div(ee, P62()); lemma_basic_div(0, P62());
 }
 
 
@@ -2076,14 +2609,31 @@ pub const fn iterations(f_bits: u32, g_bits: u32) -> (ret__: usize)
 //@@ fn src/modular/safegcd.rs | - | jump | body | props C10
 pub const fn jump(f: &[u64], g: &[u64], mut delta: i64) -> (ret__: (i64, Matrix))
 //@+
-    requires f@.len() >= 1, g@.len() >= 1, f@[0] <= 0x3fff_ffff_ffff_ffffu64, g@[0] <= 0x3fff_ffff_ffff_ffffu64, f@[0] % 2 == 1,
-        -0x1_0000_0000_0000 <= delta <= 0x1_0000_0000_0000
-    ensures ret__.0 as int == divsteps_n(62, (delta as int, f@[0] as int, g@[0] as int)).0,
-        mt(ret__.1) == tmat(62, (delta as int, f@[0] as int, g@[0] as int))
+    // domain: f[0] odd (the documented one), or before the first swap of a run that starts with an even f:
+    // delta > 0 and (g[0] odd  or  f[0] == 0)
+    requires f@.len() >= 1, g@.len() >= 1, f@[0] <= 0x3fff_ffff_ffff_ffffu64, g@[0] <= 0x3fff_ffff_ffff_ffffu64,
+        -0x1_0000_0000_0000 <= delta <= 0x1_0000_0000_0000,
+        f@[0] % 2 == 1 || (delta > 0 && (f@[0] == 0 || g@[0] % 2 == 1))
+    ensures
+        // always: |rows| <= 2^62 (no overflow in fg / de), delta moves by at most 62
+        ab(mt(ret__.1).0) + ab(mt(ret__.1).1) <= P62(), ab(mt(ret__.1).2) + ab(mt(ret__.1).3) <= P62(),
+        ab(ret__.0 as int) <= ab(delta as int) + 62,
+        // f[0] odd: delta and the transition matrix of 62 divsteps started at the low words
+        f@[0] % 2 == 1 ==> (ret__.0 as int == divsteps_n(62, (delta as int, f@[0] as int, g@[0] as int)).0
+            && mt(ret__.1) == tmat(62, (delta as int, f@[0] as int, g@[0] as int))),
+        // f[0] even, g[0] odd: the same for the start (delta, f[0] + g[0], g[0]); the matrix is expressed in the basis (f + g, g)
+        (f@[0] % 2 == 0 && g@[0] % 2 == 1) ==> (ret__.0 as int == divsteps_n(62, (delta as int, f@[0] as int + g@[0] as int, g@[0] as int)).0
+            && (mt(ret__.1).0, mt(ret__.1).1 - mt(ret__.1).0, mt(ret__.1).2, mt(ret__.1).3 - mt(ret__.1).2)
+                == tmat(62, (delta as int, f@[0] as int + g@[0] as int, g@[0] as int))),
+        // f[0] == 0: explicit (z = trailing zeros of g[0]: z shifts, the swap, 62 - z shifts)
+        (f@[0] == 0 && g@[0] == 0) ==> (ret__.0 as int == delta + 62 && mt(ret__.1) == (P62(), 0int, 0int, 1int)),
+        (f@[0] == 0 && g@[0] != 0) ==> (tzn(g@[0] as int) <= 61 && ret__.0 as int == 62 - 2 * tzn(g@[0] as int) - delta
+            && mt(ret__.1) == (0int, p2((62 - tzn(g@[0] as int)) as nat), -p2(tzn(g@[0] as int)), 0int))
 //@-
 {
 //@+
-    let ghost s0 = (delta as int, f@[0] as int, g@[0] as int);
+    let ghost f0 = f@[0] as int; let ghost g0 = g@[0] as int; let ghost d0 = delta as int;
+    let ghost s0 = (d0, f0, g0); let ghost se = (d0, f0 + g0, g0);
 //@-
     // This function is defined because the method "min" of the i64 type is not constant
 //@+
@@ -2096,10 +2646,14 @@ pub const fn jump(f: &[u64], g: &[u64], mut delta: i64) -> (ret__: (i64, Matrix)
     let mut t: Matrix = [[1, 0], [0, 1]];
 //@+
     let ghost mut c: nat = 0; let ghost mut pend: nat = 0;
+    // pre: before the first swap of an even-f run; trk: the divstep trajectory from sx is tracked (matrix in the basis given by adj)
+    let ghost mut pre: bool = f0 % 2 == 0; let ghost mut trk: bool = f0 % 2 == 1;
+    let ghost adj: int = if f0 % 2 == 1 { 0 } else { 1 }; let ghost sx = if f0 % 2 == 1 { s0 } else { se };
+    let ghost mut cz: nat = 0;
     proof {
         sg_p2_succ(0); lemma2_to64_rest();
         let p0 = p2(0);
-        assert(p0 * 1 == 1 && p0 * 0 == 0 && P62() * p0 == P62()) by (nonlinear_arith) requires p0 == 1;
+        assert(p0 * 1 == 1 && p0 * 0 == 0 && P62() * p0 == P62() && g0 * p0 == g0) by (nonlinear_arith) requires p0 == 1;
         assert(g as int / 1 == g as int);
     }
 //@-
@@ -2107,22 +2661,33 @@ pub const fn jump(f: &[u64], g: &[u64], mut delta: i64) -> (ret__: (i64, Matrix)
 //@+
         invariant_except_break
             1 <= steps <= 62, c == 62 - steps, pend <= 5, pend <= steps,
-            (f as int) % 2 == 1, ab(f as int) <= P62(),
-            (g as int) % p2(pend) == 0, ab(g as int) <= P62() * p2(pend),
-            divsteps_n(c + pend, s0) == (delta + pend, f as int, g as int / p2(pend)),
-            tmat(c + pend, s0) == (p2(pend) * t[0][0], p2(pend) * t[0][1], t[1][0] as int, t[1][1] as int),
+            ab(f as int) <= P62(), (g as int) % p2(pend) == 0, ab(g as int) <= P62() * p2(pend),
             ab(t[0][0] as int) + ab(t[0][1] as int) <= p2(c), ab(t[1][0] as int) + ab(t[1][1] as int) <= p2(c + pend),
+            ab(delta as int) <= ab(d0) + c,
+            trk ==> ((f as int) % 2 == 1
+                && divsteps_n(c + pend, sx) == (delta + pend, f as int, g as int / p2(pend))
+                && tmat(c + pend, sx) == (p2(pend) * t[0][0], p2(pend) * (t[0][1] - adj * t[0][0]), t[1][0] as int, t[1][1] - adj * t[1][0])),
+            pre ==> (f0 % 2 == 0 && f as int == f0 && pend == 0 && delta == d0 + c && g * p2(c) == g0 && mt(t) == (p2(c), 0int, 0int, 1int)),
+            (f0 % 2 == 0 && !pre && g0 % 2 == 1) ==> trk,
+            (f0 == 0 && !pre) ==> (g == 0 && mt(t) == (0int, 1int, -p2(c), 0int) && delta == -(d0 + c) && cz == c && g0 != 0 && cz == tzn(g0)),
         invariant
-            s0.1 % 2 == 1, -0x1_0000_0000_0000 <= s0.0 <= 0x1_0000_0000_0000,
+            f0 % 2 == 1 || (d0 > 0 && (f0 == 0 || g0 % 2 == 1)), 0 <= f0 < P62(), 0 <= g0 < P62(), -0x1_0000_0000_0000 <= d0 <= 0x1_0000_0000_0000,
+            s0 == (d0, f0, g0), se == (d0, f0 + g0, g0), sx == (if f0 % 2 == 1 { s0 } else { se }), adj == (if f0 % 2 == 1 { 0int } else { 1int }),
+            f0 % 2 == 1 ==> (trk && !pre), p2(62) == P62(),
         ensures
-            delta as int == divsteps_n(62, s0).0, mt(t) == tmat(62, s0),
+            ab(mt(t).0) + ab(mt(t).1) <= P62(), ab(mt(t).2) + ab(mt(t).3) <= P62(), ab(delta as int) <= ab(d0) + 62,
+            f0 % 2 == 1 ==> (delta as int == divsteps_n(62, s0).0 && mt(t) == tmat(62, s0)),
+            (f0 % 2 == 0 && g0 % 2 == 1) ==> (delta as int == divsteps_n(62, se).0
+                && (mt(t).0, mt(t).1 - mt(t).0, mt(t).2, mt(t).3 - mt(t).2) == tmat(62, se)),
+            (f0 == 0 && g0 == 0) ==> (delta as int == d0 + 62 && mt(t) == (P62(), 0int, 0int, 1int)),
+            (f0 == 0 && g0 != 0) ==> (tzn(g0) <= 61 && delta as int == 62 - 2 * tzn(g0) - d0
+                && mt(t) == (0int, p2((62 - tzn(g0)) as nat), -p2(tzn(g0)), 0int)),
         decreases steps - pend
 //@-
 {
 //@+
-        let ghost g_in = g; let ghost t_in = t; let ghost delta_in = delta; let ghost steps_in = steps;
+        let ghost g_in = g; let ghost t_in = t; let ghost delta_in = delta; let ghost steps_in = steps; let ghost c_in = c;
         proof {
-            lemma_delta_bound(c + pend, s0);
             assert forall|r: u32| #[trigger] i128_tz_ok(g, r) implies ({ let z: int = if steps > r as i64 { r as int } else { steps as int };
                 pend <= z <= steps && (g as int) % p2(z as nat) == 0 && (z < steps ==> (g != 0 && ((g as int) / p2(z as nat)) % 2 == 1)) }) by {
                 lemma_jump_tz(g, r, steps, pend);
@@ -2137,12 +2702,35 @@ pub const fn jump(f: &[u64], g: &[u64], mut delta: i64) -> (ret__: (i64, Matrix)
         t[0] = [t[0][0] << zeros, t[0][1] << zeros];
 //@+
         proof {
-            lemma_jump_shl_pre(c, zeros as nat, t_in[0][0] as int, t_in[0][1] as int);
+            let z = zeros as nat; let pz = p2(z);
+            let a = t_in[0][0] as int; let b = t_in[0][1] as int; let r2 = t_in[1][0] as int; let r3 = t_in[1][1] as int;
+            lemma_jump_shl_pre(c, z, a, b);
             lemma_i64_shl(t_in[0][0], zeros); lemma_i64_shl(t_in[0][1], zeros);
-            lemma_jump_shift(c, pend, zeros as nat, s0, delta_in as int, f as int, g_in as int, g as int,
-                t_in[0][0] as int, t_in[0][1] as int, t_in[1][0] as int, t_in[1][1] as int, t[0][0] as int, t[0][1] as int);
-            c = c + zeros as nat; pend = 0;
-            lemma_delta_bound(c, s0);
+            lemma_jump_shift_bounds(c, pend, z, g_in as int, g as int, a, b, r2, r3, t[0][0] as int, t[0][1] as int);
+            sg_p2_add(c, z); sg_p2_pos(z);
+            if trk {
+                assert((b - adj * a) * pz == b * pz - adj * (a * pz)) by (nonlinear_arith);
+                lemma_jump_shift_traj(c, pend, z, sx, delta_in as int, f as int, g_in as int, g as int,
+                    a, b - adj * a, r2, r3 - adj * r2, t[0][0] as int, t[0][1] - adj * t[0][0]);
+            }
+            if pre {
+                assert(g * (p2(c) * pz) == g0 && a * pz == p2(c) * pz && b * pz == 0) by (nonlinear_arith)
+                    requires g_in as int == g * pz, g_in * p2(c) == g0, a == p2(c), b == 0;
+            }
+            if f0 == 0 && !pre {
+                assert(g == 0);
+                assert(a * pz == 0 && b * pz == pz) by (nonlinear_arith) requires a == 0, b == 1;
+            }
+            c = c + z; pend = 0;
+            if steps == 0 {
+                // all 62 steps are consumed: the postconditions
+                if pre {
+                    assert(g == 0 && g0 == 0) by (nonlinear_arith) requires g * P62() == g0, 0 <= g0 < P62();
+                }
+                if f0 == 0 && !pre {
+                    assert(z == 62 - cz);
+                }
+            }
         }
 //@-
         if steps == 0 {
@@ -2150,7 +2738,18 @@ pub const fn jump(f: &[u64], g: &[u64], mut delta: i64) -> (ret__: (i64, Matrix)
         }
 //@+
         let ghost swapped = delta > 0; let ghost f1 = f; let ghost g1 = g; let ghost d1 = delta; let ghost t1 = t;
-        proof { assert((g as int) % 2 == 1); assert(p2(0) == 1) by { sg_p2_succ(0); } assert(g as int / 1 == g as int); }
+        proof {
+            assert((g as int) % 2 == 1);
+            assert(p2(0) == 1) by { sg_p2_succ(0); }
+            assert(g as int / 1 == g as int);
+            if pre {
+                // g is the odd part of g[0]
+                sg_p2_pos(c);
+                assert(g > 0) by (nonlinear_arith) requires g * p2(c) == g0, g0 >= 0, p2(c) > 0, g % 2 == 1;
+                lemma_tzn(g0, c, g as int);
+            }
+            assert(!(f0 == 0 && !pre));
+        }
 //@-
         if delta > 0 {
             let (__t3, __t4, __t5) = (-delta, g as i64, -f as i128); delta = __t3; f = __t4; g = __t5;
@@ -2161,7 +2760,7 @@ pub const fn jump(f: &[u64], g: &[u64], mut delta: i64) -> (ret__: (i64, Matrix)
         // attributed to Peter Montgomery.
 //@+
         let ghost k: int = if (if steps > 1 - delta { 1 - delta } else { steps as int }) > 5 { 5 } else { if steps > 1 - delta { 1 - delta } else { steps as int } };
-        proof { lemma_one_shl_i64(k as i64); }
+        proof { lemma_one_shl_i64(k as i64); assert((f as int) % 2 == 1); }
 //@-
         let mask = (1 << min(min(steps, 1 - delta), 5)) - 1;
         let w = (g as i64).wrapping_mul(f.wrapping_mul(3) ^ 28) & mask;
@@ -2177,10 +2776,46 @@ pub const fn jump(f: &[u64], g: &[u64], mut delta: i64) -> (ret__: (i64, Matrix)
         g += w as i128 * f as i128;
 //@+
         proof {
-            lemma_jump_wstep(c, k as nat, w as int, s0, swapped, d1 as int, f1 as int, g1 as int,
-                t1[0][0] as int, t1[0][1] as int, t1[1][0] as int, t1[1][1] as int,
-                delta as int, f as int, g2 as int, t[0][0] as int, t[0][1] as int, t2[1][0] as int, t2[1][1] as int,
-                t[1][0] as int, t[1][1] as int, g as int);
+            let wi_ = w as int;
+            let va = t2[0][0] as int; let vb = t2[0][1] - adj * t2[0][0]; let vr2 = t2[1][0] as int; let vr3 = t2[1][1] - adj * t2[1][0];
+            assert(t[1][0] as int == va * wi_ + vr2);
+            assert(t[1][1] - adj * t[1][0] == vb * wi_ + vr3) by (nonlinear_arith)
+                requires t[1][1] as int == t2[0][1] * wi_ + t2[1][1], t[1][0] as int == t2[0][0] * wi_ + t2[1][0],
+                    vb == t2[0][1] - adj * t2[0][0], vr3 == t2[1][1] - adj * t2[1][0];
+            if trk {
+                lemma_jump_wstep(c, k as nat, wi_, sx, swapped, d1 as int, f1 as int, g1 as int,
+                    t1[0][0] as int, t1[0][1] - adj * t1[0][0], t1[1][0] as int, t1[1][1] - adj * t1[1][0],
+                    delta as int, f as int, g2 as int, va, vb, vr2, vr3,
+                    t[1][0] as int, t[1][1] - adj * t[1][0], g as int);
+            }
+            if pre {
+                // the first swap of an even-f run
+                if g0 % 2 == 1 {
+                    // c == 0: the run is the divstep trajectory from (delta, f[0] + g[0], g[0]); w is even, the model uses w + 1
+                    assert(c == 0 && g1 as int == g0);
+                    lemma_w_even(f0, g0, wi_, k as nat);
+                    sg_p2_succ((k - 1) as nat);
+                    assert(-(f0 + g0) + (wi_ + 1) * g0 == g2 as int + wi_ * (f as int)) by (nonlinear_arith)
+                        requires g2 as int == -f0, f as int == g0;
+                    assert(divsteps_n(0, se) == se && tmat(0, se) == (1int, 0int, 0int, 1int));
+                    lemma_ext_swap(0, k as nat, wi_ + 1, se);
+                    assert(0 + k as nat == c + k as nat);
+                    let pk = p2(k as nat);
+                    assert(pk * 0 == 0 && pk * 1 == pk && (wi_ + 1) * 0 == 0 && (wi_ + 1) * 1 == wi_ + 1) by (nonlinear_arith);
+                    trk = true;
+                }
+                if f0 == 0 {
+                    assert(g2 == 0);
+                    let yy = wi::wrapping_mul(f, 3) ^ 28;
+                    lemma_iwmul_bv(0i64, yy);
+                    assert(mul(0i64, yy) == 0) by (bit_vector);
+                    assert(0i64 & mask == 0) by (bit_vector);
+                    assert(w == 0);
+                    assert(va * wi_ == 0 && t2[0][1] * wi_ == 0 && wi_ * (f as int) == 0) by (nonlinear_arith) requires wi_ == 0;
+                    cz = c;
+                }
+                pre = false;
+            }
             pend = k as nat;
         }
 //@-
@@ -2205,7 +2840,23 @@ pub const fn as_words(&self) -> (ret__: &[Word; LIMBS])
 
 //@@ macroblock src/modular/safegcd/macros.rs | impl_limb_convert | arm 0 | input_type=Word,input_bits=Word::BITS as usize,input=input,output_type=(u64),output_bits=62,output=output | limb_convert_sat_to_unsat | body | props C10 | sig pub const fn limb_convert_sat_to_unsat<const S: usize, const U: usize>(input: &[Word; S], output: &mut [u64; U])
 pub const fn limb_convert_sat_to_unsat<const S: usize, const U: usize>(input: &[Word; S], output: &mut [u64; U])
+//@+
+    requires S * 64 <= 0xffff_ffff, U * 62 <= 0xffff_ffff, 
+        forall|k: int| 0 <= k < U ==> old(output)@[k] == 0,
+    ensures rv(final(output)@, U as nat, 62) == rv(input@, S as nat, 64) % p2(min_int(S * 64, U * 62) as nat),
+        forall|k: int| 0 <= k < U ==> final(output)@[k] <= 0x3fff_ffff_ffff_ffffu64,
+//@-
 {
+//@+
+        let ghost n_in = S as nat; let ghost n_out = U as nat; let ghost nv = rv(input@, n_in, 64);
+        proof {
+            let wb = Word::BITS as usize; let li = input.len(); let lo = output.len();
+            assert(li * wb == li * 64 && lo * wb == lo * 64) by (nonlinear_arith) requires wb == 64;
+            lemma2_to64(); lemma2_to64_rest();
+            assert forall|k: int| 0 <= k < n_in implies (#[trigger] input@[k] as int) < p2(64) by { }
+            lemma_conv_init(nv, output@, n_out, 62);
+        }
+//@-
         // This function is defined because the method "min" of the usize type is not constant
 //@+
         #[verus_spec(m => ensures m == (if a > b { b } else { a }))]
@@ -2221,16 +2872,65 @@ pub const fn limb_convert_sat_to_unsat<const S: usize, const U: usize>(input: &[
         let mut bits = 0;
         while bits < total
 //@+
+            invariant
+                bits <= total, total as int == min_int((n_in * 64) as int, (n_out * 62) as int), n_in == S, n_out == U, nv == rv(input@, n_in, 64),
+                n_in * 64 <= 0xffff_ffff, n_out * 62 <= 0xffff_ffff, output@.len() == n_out, input@.len() == n_in,
+                forall|k: int| 0 <= k < n_in ==> (#[trigger] input@[k] as int) < p2(64),
+                conv_inv(nv, output@, n_out, 62, bits as nat),
+//@-
+//@+
             decreases total - bits
 //@-
 {
+//@+
+            let ghost out0 = output@; let ghost b0 = bits as nat;
+            proof {
+                let wb = Word::BITS as usize;
+                assert(bits % wb == bits % 64 && bits / wb == bits / 64);
+                assert(b0 / 64 < n_in) by (nonlinear_arith) requires b0 < n_in * 64;
+                assert(b0 / 62 < n_out) by (nonlinear_arith) requires b0 < n_out * 62;
+            }
+//@-
             let (i, o) = (bits % Word::BITS as usize, bits % 62);
             output[bits / 62] |= (input[bits / Word::BITS as usize] >> i) as (u64) << o;
+//@+
+            proof {
+                let ko = (b0 / 62) as int; let j = (b0 / 64) as int;
+                assert(output@ == out0.update(ko, output@[ko]));
+                assert(output@[ko] == out0[ko] | ((input@[j] >> (i as u32)) << (o as u32)));
+                lemma_conv_word(out0[ko], input@[j], i as u32, o as u32, 62, output@[ko]);
+                let step = min_int(64 - b0 % 64, 62 - b0 % 62);
+                lemma_conv_step(nv, input@, n_in, 64, out0, n_out, 62, b0, step as nat, output@[ko]);
+                // the step does not pass the end
+                assert(b0 + step <= total) by {
+                    lemma_fundamental_div_mod(b0 as int, 64); lemma_fundamental_div_mod(b0 as int, 62);
+                    assert(64 * (b0 / 64 + 1) <= 64 * n_in) by (nonlinear_arith) requires b0 / 64 + 1 <= n_in;
+                    assert(62 * (b0 / 62 + 1) <= 62 * n_out) by (nonlinear_arith) requires b0 / 62 + 1 <= n_out;
+                }
+            }
+//@-
             bits += min(Word::BITS as usize - i, 62 - o);
         }
         let mask = (<(u64)>::MAX as (u64)) >> (<(u64)>::BITS as usize - 62);
         let mut filled = total / 62 + if total % 62 > 0 { 1 } else { 0 };
+//@+
+        let ghost out1 = output@; let ghost filled0 = filled;
+        proof {
+            let wb = Word::BITS as usize;
+            assert(total % wb == total % 64 && total / wb == total / 64);
+            lemma_fundamental_div_mod(total as int, 62);
+            assert(filled0 <= n_out) by (nonlinear_arith) requires total <= n_out * 62, total == 62 * (total / 62) + total % 62, 0 <= total % 62 < 62,
+                filled0 == total / 62 + (if total % 62 > 0 { 1int } else { 0int });
+            assert(0xffff_ffff_ffff_ffffu64 >> 2usize == 0x3fff_ffff_ffff_ffffu64 && 0xffff_ffff_ffff_ffffu64 >> 0usize == 0xffff_ffff_ffff_ffffu64) by (bit_vector);
+        }
+//@-
         while filled > 0
+//@+
+            invariant
+                filled <= filled0 <= n_out, output@.len() == n_out, out1.len() == n_out,
+                forall|k: int| filled <= k < filled0 ==> output@[k] == out1[k] & mask,
+                forall|k: int| 0 <= k < n_out && (k < filled || k >= filled0) ==> output@[k] == out1[k],
+//@-
 //@+
             decreases filled
 //@-
@@ -2238,11 +2938,46 @@ pub const fn limb_convert_sat_to_unsat<const S: usize, const U: usize>(input: &[
             filled -= 1;
             output[filled] &= mask;
         }
+//@+
+        proof {
+            assert(mask == 0x3fff_ffff_ffff_ffffu64);
+            assert(bits == total);
+            lemma_fundamental_div_mod(total as int, 62);
+            sg_p2_pos(62);
+            assert forall|k: int| 0 <= k < n_out implies output@[k] as int == out1[k] as int % p2(62) by {
+                let w = out1[k];
+                if k < filled0 {
+                    assert(w & 0x3fff_ffff_ffff_ffffu64 == w % 0x4000_0000_0000_0000u64) by (bit_vector);
+                } else {
+                    assert(62 * k >= total) by (nonlinear_arith) requires k >= filled0, total == 62 * (total / 62) + total % 62, total % 62 < 62,
+                        filled0 == total / 62 + (if total % 62 > 0 { 1int } else { 0int });
+                    assert(out1[k] == 0);
+                    lemma_small_mod(0, p2(62) as nat);
+                }
+            }
+            lemma_rvm_rv(out1, output@, n_out, 62);
+        }
+//@-
     }
 //@@ end
 //@@ macroblock src/modular/safegcd/macros.rs | impl_limb_convert | arm 0 | input_type=u64,input_bits=62,input=input,output_type=(Word),output_bits=Word::BITS as usize,output=output | limb_convert_unsat_to_sat | body | props C10 | sig pub const fn limb_convert_unsat_to_sat<const U: usize, const S: usize>(input: &[u64; U], output: &mut [Word; S])
 pub const fn limb_convert_unsat_to_sat<const U: usize, const S: usize>(input: &[u64; U], output: &mut [Word; S])
+//@+
+    requires U * 62 <= 0xffff_ffff, S * 64 <= 0xffff_ffff, forall|k: int| 0 <= k < U ==> input@[k] <= 0x3fff_ffff_ffff_ffffu64,
+        forall|k: int| 0 <= k < S ==> old(output)@[k] == 0,
+    ensures rv(final(output)@, S as nat, 64) == rv(input@, U as nat, 62) % p2(min_int(U * 62, S * 64) as nat),
+//@-
 {
+//@+
+        let ghost n_in = U as nat; let ghost n_out = S as nat; let ghost nv = rv(input@, n_in, 62);
+        proof {
+            let wb = Word::BITS as usize; let li = input.len(); let lo = output.len();
+            assert(li * wb == li * 64 && lo * wb == lo * 64) by (nonlinear_arith) requires wb == 64;
+            lemma2_to64(); lemma2_to64_rest();
+            assert forall|k: int| 0 <= k < n_in implies (#[trigger] input@[k] as int) < p2(62) by { }
+            lemma_conv_init(nv, output@, n_out, 64);
+        }
+//@-
         // This function is defined because the method "min" of the usize type is not constant
 //@+
         #[verus_spec(m => ensures m == (if a > b { b } else { a }))]
@@ -2258,16 +2993,65 @@ pub const fn limb_convert_unsat_to_sat<const U: usize, const S: usize>(input: &[
         let mut bits = 0;
         while bits < total
 //@+
+            invariant
+                bits <= total, total as int == min_int((n_in * 62) as int, (n_out * 64) as int), n_in == U, n_out == S, nv == rv(input@, n_in, 62),
+                n_in * 62 <= 0xffff_ffff, n_out * 64 <= 0xffff_ffff, output@.len() == n_out, input@.len() == n_in,
+                forall|k: int| 0 <= k < n_in ==> (#[trigger] input@[k] as int) < p2(62),
+                conv_inv(nv, output@, n_out, 64, bits as nat),
+//@-
+//@+
             decreases total - bits
 //@-
 {
+//@+
+            let ghost out0 = output@; let ghost b0 = bits as nat;
+            proof {
+                let wb = Word::BITS as usize;
+                assert(bits % wb == bits % 64 && bits / wb == bits / 64);
+                assert(b0 / 62 < n_in) by (nonlinear_arith) requires b0 < n_in * 62;
+                assert(b0 / 64 < n_out) by (nonlinear_arith) requires b0 < n_out * 64;
+            }
+//@-
             let (i, o) = (bits % 62, bits % Word::BITS as usize);
             output[bits / Word::BITS as usize] |= (input[bits / 62] >> i) as (Word) << o;
+//@+
+            proof {
+                let ko = (b0 / 64) as int; let j = (b0 / 62) as int;
+                assert(output@ == out0.update(ko, output@[ko]));
+                assert(output@[ko] == out0[ko] | ((input@[j] >> (i as u32)) << (o as u32)));
+                lemma_conv_word(out0[ko], input@[j], i as u32, o as u32, 64, output@[ko]);
+                let step = min_int(62 - b0 % 62, 64 - b0 % 64);
+                lemma_conv_step(nv, input@, n_in, 62, out0, n_out, 64, b0, step as nat, output@[ko]);
+                // the step does not pass the end
+                assert(b0 + step <= total) by {
+                    lemma_fundamental_div_mod(b0 as int, 62); lemma_fundamental_div_mod(b0 as int, 64);
+                    assert(62 * (b0 / 62 + 1) <= 62 * n_in) by (nonlinear_arith) requires b0 / 62 + 1 <= n_in;
+                    assert(64 * (b0 / 64 + 1) <= 64 * n_out) by (nonlinear_arith) requires b0 / 64 + 1 <= n_out;
+                }
+            }
+//@-
             bits += min(62 - i, Word::BITS as usize - o);
         }
         let mask = (<(Word)>::MAX as (Word)) >> (<(Word)>::BITS as usize - Word::BITS as usize);
         let mut filled = total / Word::BITS as usize + if total % Word::BITS as usize > 0 { 1 } else { 0 };
+//@+
+        let ghost out1 = output@; let ghost filled0 = filled;
+        proof {
+            let wb = Word::BITS as usize;
+            assert(total % wb == total % 64 && total / wb == total / 64);
+            lemma_fundamental_div_mod(total as int, 64);
+            assert(filled0 <= n_out) by (nonlinear_arith) requires total <= n_out * 64, total == 64 * (total / 64) + total % 64, 0 <= total % 64 < 64,
+                filled0 == total / 64 + (if total % 64 > 0 { 1int } else { 0int });
+            assert(0xffff_ffff_ffff_ffffu64 >> 2usize == 0x3fff_ffff_ffff_ffffu64 && 0xffff_ffff_ffff_ffffu64 >> 0usize == 0xffff_ffff_ffff_ffffu64) by (bit_vector);
+        }
+//@-
         while filled > 0
+//@+
+            invariant
+                filled <= filled0 <= n_out, output@.len() == n_out, out1.len() == n_out,
+                forall|k: int| filled <= k < filled0 ==> output@[k] == out1[k] & mask,
+                forall|k: int| 0 <= k < n_out && (k < filled || k >= filled0) ==> output@[k] == out1[k],
+//@-
 //@+
             decreases filled
 //@-
@@ -2275,34 +3059,107 @@ pub const fn limb_convert_unsat_to_sat<const U: usize, const S: usize>(input: &[
             filled -= 1;
             output[filled] &= mask;
         }
+//@+
+        proof {
+            assert(mask == 0xffff_ffff_ffff_ffffu64);
+            assert(bits == total);
+            lemma_fundamental_div_mod(total as int, 64);
+            sg_p2_pos(64);
+            assert forall|k: int| 0 <= k < n_out implies output@[k] as int == out1[k] as int % p2(64) by {
+                let w = out1[k];
+                if k < filled0 {
+                    assert(w & 0xffff_ffff_ffff_ffffu64 == w) by (bit_vector); lemma_small_mod(w as nat, p2(64) as nat);
+                } else {
+                    assert(64 * k >= total) by (nonlinear_arith) requires k >= filled0, total == 64 * (total / 64) + total % 64, total % 64 < 64,
+                        filled0 == total / 64 + (if total % 64 > 0 { 1int } else { 0int });
+                    assert(out1[k] == 0);
+                    lemma_small_mod(0, p2(64) as nat);
+                }
+            }
+            lemma_rvm_rv(out1, output@, n_out, 64);
+        }
+//@-
     }
 //@@ end
-//@@ fn src/modular/safegcd.rs | impl<const LIMBS: usize> UnsatInt<LIMBS> | from_uint | stub | props C10
+//@@ fn src/modular/safegcd.rs | impl<const LIMBS: usize> UnsatInt<LIMBS> | from_uint | body | props C10
 impl<const LIMBS: usize> UnsatInt<LIMBS> {
-#[verifier::external_body]
 pub const fn from_uint<const SAT_LIMBS: usize>(input: &Uint<SAT_LIMBS>) -> (ret__: Self)
 //@+
-    // ASSUMED (body uses `impl_limb_convert!`): the panic guard is `LIMBS == safegcd_nlimbs!(64 SAT_LIMBS)`
-    requires sg_nlimbs_ok(SAT_LIMBS as int, LIMBS as int)
+    // the panic guard is `LIMBS == safegcd_nlimbs!(64 SAT_LIMBS)`
+    requires sg_nlimbs_ok(SAT_LIMBS as int, LIMBS as int), SAT_LIMBS <= 0x3ff_fffe
     ensures ret__.wf(), ret__.uv() == input.v(), ret__.sv() == input.v()
 //@-
 {
-    unimplemented!()
-}
+//@+
+    proof {
+        let b = Limb::BITS as usize; let s = SAT_LIMBS;
+        assert(s * b == s * 64) by (nonlinear_arith) requires b == 64;
+    }
+//@-
+        if LIMBS != safegcd_nlimbs!(SAT_LIMBS * Limb::BITS as usize) {
+            panic!("incorrect number of limbs");
+        }
+        let mut output = [0; LIMBS];
+        impl_limb_convert!(Word, Word::BITS as usize, input.as_words(), u64, 62, output);
+//@+
+        proof {
+            let sn = SAT_LIMBS as nat; let un = LIMBS as nat;
+            assert forall|w: Seq<u64>| (forall|k: int| 0 <= k < sn ==> w[k] == input.limbs@[k].0) implies #[trigger] rv(w, sn, 64) == input.v() by {
+                lemma_rv_val(w, input.limbs@, sn);
+            }
+            lemma_rv_uval(output@, un);
+            lemma_val_bound(input.limbs@, sn); lemma_bp_pow2(sn);
+            assert(min_int(SAT_LIMBS * 64, LIMBS * 62) == 64 * sn);
+            lemma_small_mod(input.v() as nat, p2(64 * sn) as nat);
+            lemma_nlimbs_room(sn, un);
+            let r = Self(output);
+            assert(r.uv() == input.v());
+            assert(2 * r.uv() < q62(un)) by (nonlinear_arith) requires r.uv() < bp(sn), bp(sn) * B() <= q62(un), bp(sn) > 0;
+            assert(0 * q62(un) == 0);
+        }
+//@-
+        Self(output)
+    }
 }
 //@@ end
-//@@ fn src/modular/safegcd.rs | impl<const LIMBS: usize> UnsatInt<LIMBS> | to_uint | stub | props C10
+//@@ fn src/modular/safegcd.rs | impl<const LIMBS: usize> UnsatInt<LIMBS> | to_uint | body | props C10
 impl<const LIMBS: usize> UnsatInt<LIMBS> {
-#[verifier::external_body]
 pub const fn to_uint<const SAT_LIMBS: usize>(&self) -> (ret__: Uint<SAT_LIMBS>)
 //@+
-    // ASSUMED (body uses `impl_limb_convert!`): `debug_assert!(!self.is_negative())`, panic guard on the limb count
-    requires self.wf(), self.sv() >= 0, sg_nlimbs_ok(SAT_LIMBS as int, LIMBS as int)
+    // `debug_assert!(!self.is_negative())`, panic guard on the limb count
+    requires self.wf(), self.sv() >= 0, sg_nlimbs_ok(SAT_LIMBS as int, LIMBS as int), SAT_LIMBS <= 0x3ff_fffe
     ensures ret__.v() == self.uv() % bp(SAT_LIMBS as nat)
 //@-
 {
-    unimplemented!()
-}
+//@+
+    proof {
+        let b = Limb::BITS as usize; let s = SAT_LIMBS;
+        assert(s * b == s * 64) by (nonlinear_arith) requires b == 64;
+    }
+    proof { self.lemma_range(); }
+//@-
+        debug_assert!(
+            !self.is_negative().to_bool_vartime(),
+            "can't convert negative number to Uint"
+        );
+        if LIMBS != safegcd_nlimbs!(SAT_LIMBS * Limb::BITS as usize) {
+            panic!("incorrect number of limbs");
+        }
+        let mut ret = [0 as Word; SAT_LIMBS];
+        impl_limb_convert!(u64, 62, &self.0, Word, Word::BITS as usize, ret);
+//@+
+        proof {
+            let sn = SAT_LIMBS as nat; let un = LIMBS as nat;
+            assert forall|l: Seq<Limb>| (forall|k: int| 0 <= k < sn ==> l[k].0 == ret@[k]) implies #[trigger] val(l, sn) == rv(ret@, sn, 64) by {
+                lemma_rv_val(ret@, l, sn);
+            }
+            lemma_rv_uval(self.0@, un);
+            lemma_bp_pow2(sn);
+            assert(min_int(LIMBS * 62, SAT_LIMBS * 64) == 64 * sn);
+        }
+//@-
+        Uint::from_words(ret)
+    }
 }
 //@@ end
 //@@ fn src/modular/safegcd/boxed.rs | - | unsat_nlimbs_for_sat_nlimbs | body | props C10
@@ -2330,11 +3187,11 @@ pub fn unsat_nlimbs_for_sat_nlimbs(saturated_nlimbs: usize) -> (ret__: usize)
 impl<const SAT_LIMBS: usize, const UNSAT_LIMBS: usize> SafeGcdInverter<SAT_LIMBS, UNSAT_LIMBS> {
 pub const fn new(modulus: &Odd<Uint<SAT_LIMBS>>, adjuster: &Uint<SAT_LIMBS>) -> (ret__: Self)
 //@+
-    requires SAT_LIMBS >= 1, sg_nlimbs_ok(SAT_LIMBS as int, UNSAT_LIMBS as int)
+    requires 1 <= SAT_LIMBS <= 0x3ff_fffe, sg_nlimbs_ok(SAT_LIMBS as int, UNSAT_LIMBS as int)
     ensures ret__.modulus.wf(), ret__.modulus.sv() == modulus.0.v(), ret__.adjuster.wf(), ret__.adjuster.sv() == adjuster.v(),
         0 <= ret__.inverse < 0x4000_0000_0000_0000,
         modulus.0.v() % 2 == 1 ==> (modulus.0.v() * ret__.inverse as int) % P62() == 1,
-        (modulus.0.v() % 2 == 1 && adjuster.v() <= modulus.0.v() && UNSAT_LIMBS <= SG_MAX_UNSAT()) ==> ret__.wf()
+        (((modulus.0.v() % 2 == 1 && adjuster.v() <= modulus.0.v()) || (modulus.0.v() == 0 && adjuster.v() <= 1)) && UNSAT_LIMBS <= SG_MAX_UNSAT()) ==> ret__.wf()
 //@-
 {
 //@+
@@ -2361,37 +3218,46 @@ pub const fn norm(
         negate: ConstChoice,
     ) -> (ret__: UnsatInt<UNSAT_LIMBS>)
 //@+
-    requires self.modulus.wf(), value.wf(), negate.wf(), self.modulus.sv() >= 1, 8 * self.modulus.sv() <= q62(UNSAT_LIMBS as nat),
-        -2 * self.modulus.sv() < value.sv() <= self.modulus.sv()
-    ensures ret__.wf(), 0 <= ret__.sv() <= self.modulus.sv(),
-        (value.sv() < self.modulus.sv() || negate.t()) ==> ret__.sv() < self.modulus.sv(),
-        cong(ret__.sv(), if negate.t() { -value.sv() } else { value.sv() }, self.modulus.sv())
+    // total (every step is a wrapping operation); the functional facts need the documented input range (-2M, M]
+    requires self.modulus.wf(), value.wf(), negate.wf()
+    ensures ret__.wf(),
+        (self.modulus.sv() >= 1 && 8 * self.modulus.sv() <= q62(UNSAT_LIMBS as nat) && -2 * self.modulus.sv() < value.sv() <= self.modulus.sv()) ==> (
+            0 <= ret__.sv() <= self.modulus.sv()
+            && ((value.sv() < self.modulus.sv() || negate.t()) ==> ret__.sv() < self.modulus.sv())
+            && cong(ret__.sv(), if negate.t() { -value.sv() } else { value.sv() }, self.modulus.sv())),
+        // modulus 0 (Uint::inv_mod with a zero modulus): the value passes through
+        (self.modulus.sv() == 0 && !negate.t() && 0 <= value.sv() <= 1) ==> ret__.sv() == value.sv()
 //@-
 {
 //@+
     let ghost v0 = value.sv(); let ghost mm = self.modulus.sv();
+    let ghost ok = mm >= 1 && 8 * mm <= q62(UNSAT_LIMBS as nat) && -2 * mm < v0 <= mm;
+    let ghost zk = mm == 0 && !negate.t() && 0 <= v0 <= 1;
     proof { value.lemma_range(); self.modulus.lemma_range(); }
 //@-
         value = UnsatInt::select(&value, &value.add(&self.modulus), value.is_negative());
 //@+
     let ghost v1 = value.sv();
-    proof { assert(v1 == if v0 < 0 { v0 + mm } else { v0 }); assert(value.wf()); }
+    proof { if ok { assert(v1 == if v0 < 0 { v0 + mm } else { v0 }); } if zk { assert(v1 == v0); } assert(value.wf()); }
 //@-
         value = UnsatInt::select(&value, &value.neg(), negate);
 //@+
     let ghost v2 = value.sv();
-    proof { assert(v2 == if negate.t() { -v1 } else { v1 }); assert(value.wf()); }
+    proof { if ok { assert(v2 == if negate.t() { -v1 } else { v1 }); } if zk { assert(v2 == v0); } assert(value.wf()); }
 //@-
         value = UnsatInt::select(&value, &value.add(&self.modulus), value.is_negative());
 //@+
     proof {
         let v3 = value.sv();
-        assert(v3 == if v2 < 0 { v2 + mm } else { v2 });
-        let a: int = if v0 < 0 { 1 } else { 0 }; let sg: int = if negate.t() { -1 } else { 1 }; let b: int = if v2 < 0 { 1 } else { 0 };
-        let tgt = if negate.t() { -v0 } else { v0 };
-        assert(v3 - tgt == (sg * a + b) * mm) by (nonlinear_arith)
-            requires v1 == v0 + a * mm, v2 == sg * v1, v3 == v2 + b * mm, tgt == sg * v0, sg == 1 || sg == -1;
-        lemma_cong_mult(v3, tgt, sg * a + b, mm);
+        if zk { assert(v3 == v0); }
+        if ok {
+            assert(v3 == if v2 < 0 { v2 + mm } else { v2 });
+            let a: int = if v0 < 0 { 1 } else { 0 }; let sg: int = if negate.t() { -1 } else { 1 }; let b: int = if v2 < 0 { 1 } else { 0 };
+            let tgt = if negate.t() { -v0 } else { v0 };
+            assert(v3 - tgt == (sg * a + b) * mm) by (nonlinear_arith)
+                requires v1 == v0 + a * mm, v2 == sg * v1, v3 == v2 + b * mm, tgt == sg * v0, sg == 1 || sg == -1;
+            lemma_cong_mult(v3, tgt, sg * a + b, mm);
+        }
     }
 //@-
         value
@@ -2445,15 +3311,18 @@ pub const fn de<const LIMBS: usize>(
     e: UnsatInt<LIMBS>,
 ) -> (ret__: (UnsatInt<LIMBS>, UnsatInt<LIMBS>))
 //@+
-    requires modulus.wf(), d.wf(), e.wf(), modulus.sv() >= 1, modulus.sv() * B() <= q62(LIMBS as nat),
-        0 <= inverse < 0x4000_0000_0000_0000, (modulus.sv() * inverse as int) % P62() == 1,
-        ab(mt(t).0) + ab(mt(t).1) <= P62(), ab(mt(t).2) + ab(mt(t).3) <= P62(),
-        -2 * modulus.sv() < d.sv() <= modulus.sv(), -2 * modulus.sv() < e.sv() <= modulus.sv()
+    // total for every modulus / inverse (all steps wrap); the functional facts are conditional
+    requires modulus.wf(), d.wf(), e.wf(), ab(mt(t).0) + ab(mt(t).1) <= P62(), ab(mt(t).2) + ab(mt(t).3) <= P62()
     ensures ret__.0.wf(), ret__.1.wf(),
-        -2 * modulus.sv() < ret__.0.sv() <= modulus.sv(), -2 * modulus.sv() < ret__.1.sv() <= modulus.sv(),
-        (d.sv() < modulus.sv() && e.sv() < modulus.sv()) ==> (ret__.0.sv() < modulus.sv() && ret__.1.sv() < modulus.sv()),
-        cong(P62() * ret__.0.sv(), mt(t).0 * d.sv() + mt(t).1 * e.sv(), modulus.sv()),
-        cong(P62() * ret__.1.sv(), mt(t).2 * d.sv() + mt(t).3 * e.sv(), modulus.sv())
+        de_pre(modulus.sv(), inverse as int, d.sv(), e.sv(), LIMBS as nat) ==> (
+            -2 * modulus.sv() < ret__.0.sv() <= modulus.sv() && -2 * modulus.sv() < ret__.1.sv() <= modulus.sv()
+            && ((d.sv() < modulus.sv() && e.sv() < modulus.sv()) ==> (ret__.0.sv() < modulus.sv() && ret__.1.sv() < modulus.sv()))
+            && cong(P62() * ret__.0.sv(), mt(t).0 * d.sv() + mt(t).1 * e.sv(), modulus.sv())
+            && cong(P62() * ret__.1.sv(), mt(t).2 * d.sv() + mt(t).3 * e.sv(), modulus.sv())),
+        // modulus 0: plain floor division
+        (modulus.sv() == 0 && LIMBS >= 2 && ab(d.sv()) <= 1 && ab(e.sv()) <= 1) ==> (
+            ret__.0.sv() == (mt(t).0 * d.sv() + mt(t).1 * e.sv()) / P62()
+            && ret__.1.sv() == (mt(t).2 * d.sv() + mt(t).3 * e.sv()) / P62())
 //@-
 {
 //@+
@@ -2520,6 +3389,7 @@ pub const fn de<const LIMBS: usize>(
 //@+
     proof {
         assert(md as int == md0 - kd && me as int == me0 - ke);
+        if de_pre(mm, inverse as int, dd, ee, n) {
         let totd = dd * t0 + ee * t1 + mm * (md0 - kd); let tote = dd * t2 + ee * t3 + mm * (me0 - ke);
         lemma_de_divisible(dd, ee, mm, t0, t1, dl, el, cd as int, inverse as int, md0, kd);
         lemma_de_divisible(dd, ee, mm, t2, t3, dl, el, ce as int, inverse as int, me0, ke);
@@ -2537,6 +3407,16 @@ pub const fn de<const LIMBS: usize>(
         assert(P62() * rd - (t0 * dd + t1 * ee) == (md0 - kd) * mm) by (nonlinear_arith) requires P62() * rd == dd * t0 + ee * t1 + mm * (md0 - kd);
         assert(P62() * re - (t2 * dd + t3 * ee) == (me0 - ke) * mm) by (nonlinear_arith) requires P62() * re == dd * t2 + ee * t3 + mm * (me0 - ke);
         lemma_cong_mult(P62() * rd, t0 * dd + t1 * ee, md0 - kd, mm); lemma_cong_mult(P62() * re, t2 * dd + t3 * ee, me0 - ke, mm);
+        }
+        if mm == 0 && LIMBS >= 2 && ab(dd) <= 1 && ab(ee) <= 1 {
+            let mdi = md as int; let mei = me as int;
+            assert(mm * mdi == 0 && mm * mei == 0) by (nonlinear_arith) requires mm == 0;
+            lemma_abs_mul_bound(dd, t0, 1); lemma_abs_mul_bound(ee, t1, 1); lemma_abs_mul_bound(dd, t2, 1); lemma_abs_mul_bound(ee, t3, 1);
+            lemma_q62_succ((n - 1) as nat); lemma_q62_ge((n - 1) as nat);
+            assert(q >= P62() * P62()) by (nonlinear_arith) requires q == P62() * q62((n - 1) as nat), q62((n - 1) as nat) >= P62();
+            assert(dd * t0 == t0 * dd && ee * t1 == t1 * ee && dd * t2 == t2 * dd && ee * t3 == t3 * ee) by (nonlinear_arith);
+            lemma_wrap3(dd * t0, ee * t1, 0, n); lemma_wrap3(dd * t2, ee * t3, 0, n);
+        }
     }
 //@-
     let cd = d.mul(t[0][0]).add(&e.mul(t[0][1])).add(&modulus.mul(md));
@@ -2552,26 +3432,32 @@ pub const fn divsteps<const LIMBS: usize>(
     inverse: i64,
 ) -> (ret__: (UnsatInt<LIMBS>, UnsatInt<LIMBS>))
 //@+
-    requires e.wf(), f_0.wf(), g.wf(), LIMBS <= SG_MAX_UNSAT(),
-        f_0.sv() % 2 == 1, f_0.sv() >= 1, g.sv() >= 0,
-        f_0.sv() * B() <= q62(LIMBS as nat), g.sv() * B() <= q62(LIMBS as nat),
-        0 <= inverse < 0x4000_0000_0000_0000, (f_0.sv() * inverse as int) % P62() == 1,
-        -2 * f_0.sv() < e.sv() <= f_0.sv()
+    // domain: f_0 odd (modular inversion, gcd), f_0 == 0 (Uint::inv_mod with a zero modulus, gcd(0, g)), or f_0 even and g odd (Uint::gcd)
+    requires e.wf(), f_0.wf(), g.wf(), 2 <= LIMBS <= SG_MAX_UNSAT(),
+        f_0.sv() >= 0, g.sv() >= 0, f_0.sv() * B() <= q62(LIMBS as nat), g.sv() * B() <= q62(LIMBS as nat),
+        f_0.sv() % 2 == 1 || f_0.sv() == 0 || g.sv() % 2 == 1,
+        f_0.sv() == 0 ==> 0 <= e.sv() <= 1,
     ensures ret__.0.wf(), ret__.1.wf(),
-        // |f| = gcd(f_0, g)
-        ab(ret__.1.sv()) == sg_gcd(f_0.sv() as nat, g.sv() as nat),
+        // |f| = gcd(f_0, g)   (f_0 == 0 with an even non-zero g: f is the odd part of g)
+        (f_0.sv() != 0 || g.sv() % 2 == 1 || g.sv() == 0) ==> ab(ret__.1.sv()) == sg_gcd(f_0.sv() as nat, g.sv() as nat),
         ab(ret__.1.sv()) <= max_int(f_0.sv(), g.sv()),
-        // d in (-2M, M] (in (-2M, M) when e < M) and d * g ≡ f * e (mod M), M = f_0
-        -2 * f_0.sv() < ret__.0.sv() <= f_0.sv(), e.sv() < f_0.sv() ==> ret__.0.sv() < f_0.sv(),
-        cong(ret__.0.sv() * g.sv(), ret__.1.sv() * e.sv(), f_0.sv())
+        f_0.sv() == 0 ==> (ret__.1.sv() >= 0 && 0 <= ret__.0.sv() <= 1),
+        // f_0 = M odd with its inverse modulo 2^62, e in (-2M, M]:  d in (-2M, M] (in (-2M, M) when e < M) and d * g ≡ f * e (mod M)
+        ds_dpre(f_0.sv(), inverse as int, e.sv(), LIMBS as nat) ==> (
+            -2 * f_0.sv() < ret__.0.sv() <= f_0.sv() && (e.sv() < f_0.sv() ==> ret__.0.sv() < f_0.sv())
+            && cong(ret__.0.sv() * g.sv(), ret__.1.sv() * e.sv(), f_0.sv()))
 //@-
 {
 //@+
-    let ghost mm = f_0.sv(); let ghost x = g.sv(); let ghost aa = e.sv(); let ghost s0 = (1int, mm, x);
+    let ghost mm = f_0.sv(); let ghost x = g.sv(); let ghost aa = e.sv();
+    let ghost meff = if mm % 2 == 1 { mm } else { mm + x }; let ghost s0 = (1int, meff, x);
     let ghost bnd = max_int(mm, x); let ghost n = LIMBS as nat; let ghost q = q62(n);
+    let ghost dm = ds_dpre(mm, inverse as int, aa, n);
+    let ghost mut zp: bool = true;
     proof {
         f_0.lemma_range(); g.lemma_range(); e.lemma_range(); lemma2_to64_rest(); lemma_q62_ge(n); lemma_q62_pow2(n);
         assert(p2(62) == P62());
+        sg_p2_succ(0);
     }
 //@-
     let mut d = UnsatInt::ZERO();
@@ -2583,83 +3469,159 @@ pub const fn divsteps<const LIMBS: usize>(
 //@+
     proof {
         assert forall|bf: u32, bg: u32| mm < p2(bf as nat) && x < p2(bg as nat) && m as int == #[trigger] sg_iterations(max_int(bf as int, bg as int))
-            implies divsteps_n((62 * m) as nat, s0).2 == 0 by {
+            implies (mm != 0 ==> divsteps_n((62 * m) as nat, s0).2 == 0) && (mm == 0 ==> x < p2((62 * m) as nat)) by {
             let dbits = max_int(bf as int, bg as int) as nat;
             sg_p2_mono(bf as nat, dbits); sg_p2_mono(bg as nat, dbits);
-            // Bernstein-Yang Theorem 11.2 for the number of rounds the code actually computed
-            axiom_bernstein_yang_bound(mm, x, dbits, m as nat);
+            if mm % 2 == 1 {
+                // Bernstein-Yang Theorem 11.2 for the number of rounds the code actually computed
+                axiom_bernstein_yang_bound(mm, x, dbits, m as nat);
+            } else if mm != 0 {
+                // even f_0, odd g: the extension (second axiom)
+                axiom_bernstein_yang_bound_even_f_odd_g(mm, x, dbits, m as nat);
+            } else {
+                // f_0 == 0: no axiom; 62 m >= bits(g) halvings are enough
+                sg_p2_mono(bg as nat, (62 * m) as nat);
+            }
         }
-        assert(divsteps_n((62 * m) as nat, s0).2 == 0);
+        assert((mm != 0 ==> divsteps_n((62 * m) as nat, s0).2 == 0) && (mm == 0 ==> x < p2((62 * m) as nat)));
         assert(m <= 0x1000_0000);
     }
 //@-
 //@+
     proof {
         let d0 = d.sv(); let f0v = f.sv(); let e0 = e.sv(); let g0v = g.sv();
-        assert(d0 * x == 0) by (nonlinear_arith) requires d0 == 0;
-        assert(0 - f0v * aa == (-aa) * mm) by (nonlinear_arith) requires f0v == mm;
-        lemma_cong_mult(0, f0v * aa, -aa, mm);
-        assert(e0 * x - g0v * aa == 0 * mm) by (nonlinear_arith) requires e0 == aa, g0v == x;
-        lemma_cong_mult(e0 * x, g0v * aa, 0, mm);
+        if dm {
+            assert(d0 * x == 0) by (nonlinear_arith) requires d0 == 0;
+            assert(0 - f0v * aa == (-aa) * mm) by (nonlinear_arith) requires f0v == mm;
+            lemma_cong_mult(0, f0v * aa, -aa, mm);
+            assert(e0 * x - g0v * aa == 0 * mm) by (nonlinear_arith) requires e0 == aa, g0v == x;
+            lemma_cong_mult(e0 * x, g0v * aa, 0, mm);
+        }
+        assert(g0v * p2(0) == x) by (nonlinear_arith) requires g0v == x, p2(0) == 1;
+        assert(divsteps_n(0, s0) == s0);
     }
 //@-
     while i < m
 //@+
         invariant
-            i <= m, m <= 0x1000_0000, divsteps_n((62 * m) as nat, s0).2 == 0,
-            f.wf(), g.wf(), d.wf(), e.wf(), f_0.wf(), mm == f_0.sv(), n == LIMBS as nat, q == q62(n), LIMBS <= SG_MAX_UNSAT(),
-            mm % 2 == 1, mm >= 1, x >= 0, mm * B() <= q, x * B() <= q, bnd == max_int(mm, x), s0 == (1int, mm, x), p2(62) == P62(),
-            0 <= inverse < 0x4000_0000_0000_0000, (mm * inverse as int) % P62() == 1,
-            (delta as int, f.sv(), g.sv()) == divsteps_n((62 * i) as nat, s0),
-            ab(delta as int) <= 1 + 62 * i,
-            cong(d.sv() * x, f.sv() * aa, mm), cong(e.sv() * x, g.sv() * aa, mm),
-            -2 * mm < d.sv() <= mm, -2 * mm < e.sv() <= mm, aa < mm ==> (d.sv() < mm && e.sv() < mm),
+            i <= m, m <= 0x1000_0000, (mm != 0 ==> divsteps_n((62 * m) as nat, s0).2 == 0) && (mm == 0 ==> x < p2((62 * m) as nat)),
+            f.wf(), g.wf(), d.wf(), e.wf(), f_0.wf(), mm == f_0.sv(), n == LIMBS as nat, q == q62(n), 2 <= LIMBS <= SG_MAX_UNSAT(),
+            mm >= 0, x >= 0, mm * B() <= q, x * B() <= q, bnd == max_int(mm, x), meff == (if mm % 2 == 1 { mm } else { mm + x }), s0 == (1int, meff, x),
+            p2(62) == P62(), mm % 2 == 1 || mm == 0 || x % 2 == 1, dm == ds_dpre(mm, inverse as int, aa, n),
+            ab(delta as int) <= 1 + 62 * i, ab(f.sv()) <= bnd, ab(g.sv()) <= bnd,
+            mm != 0 ==> ((i == 0 ==> (delta as int, f.sv(), g.sv()) == (1int, mm, x))
+                && ((i >= 1 || mm % 2 == 1) ==> (delta as int, f.sv(), g.sv()) == divsteps_n((62 * i) as nat, s0))),
+            dm ==> (cong(d.sv() * x, f.sv() * aa, mm) && cong(e.sv() * x, g.sv() * aa, mm)
+                && -2 * mm < d.sv() <= mm && -2 * mm < e.sv() <= mm && (aa < mm ==> (d.sv() < mm && e.sv() < mm))),
+            mm == 0 ==> ((zp ==> (f.sv() == 0 && delta == 1 + 62 * i && g.sv() * p2((62 * i) as nat) == x && d.sv() == 0 && 0 <= e.sv() <= 1))
+                && (!zp ==> (g.sv() == 0 && f.sv() % 2 == 1 && 0 < f.sv() <= x && (x % 2 == 1 ==> f.sv() == x) && 0 <= d.sv() <= 1 && e.sv() == 0))),
         decreases m - i
 //@-
 {
 //@+
-        let ghost st = (delta as int, f.sv(), g.sv()); let ghost zt = (delta as int, f.0@[0] as int, g.0@[0] as int);
-        let ghost dd = d.sv(); let ghost ee = e.sv();
+        let ghost st = (delta as int, f.sv(), g.sv()); let ghost f0w = f.0@[0] as int; let ghost g0w = g.0@[0] as int;
+        let ghost dd = d.sv(); let ghost ee = e.sv(); let ghost dl = delta as int;
+        let ghost first_even = mm != 0 && mm % 2 == 0 && i == 0;
         proof {
-            lemma_divsteps((62 * i) as nat, s0, bnd);
             lemma_low_limb(f); lemma_low_limb(g);
             assert(f.0@[0] <= 0x3fff_ffff_ffff_ffffu64 && g.0@[0] <= 0x3fff_ffff_ffff_ffffu64);
+            if mm != 0 && !first_even {
+                if mm % 2 == 1 { lemma_divsteps((62 * i) as nat, s0, bnd); } else { lemma_even_start((62 * i) as nat, mm, x); }
+            }
+            if mm == 0 && zp {
+                // f == 0: its low limb is 0
+                let kk = lemma_cong_wit(0, f0w, P62());
+                assert(f0w == 0) by (nonlinear_arith) requires 0 - f0w == kk * P62(), 0 <= f0w < P62();
+            }
+            if mm == 0 && !zp {
+                let kk = lemma_cong_wit(0, g0w, P62());
+                assert(g0w == 0) by (nonlinear_arith) requires 0 - g0w == kk * P62(), 0 <= g0w < P62();
+            }
+            // room for fg
+            assert(4 * P62() * bnd <= q);
         }
 //@-
         let (__t0, __t1) = jump(&f.0, &g.0, delta); delta = __t0; matrix = __t1;
 //@+
-        let ghost tm = mt(matrix); let ghost nx = divsteps_n(62, st);
-        proof {
-            lemma_divsteps_congr(62, 62, st, zt);
-            lemma_divsteps(62, st, bnd);
-            lemma_divsteps_add((62 * i) as nat, 62, s0);
-            lemma_delta_bound(62, st);
-            assert(tm == tmat(62, st));
-            assert((62 * i) as nat + 62 == (62 * (i + 1)) as nat);
-        }
+        let ghost tm = mt(matrix); let ghost d2 = delta as int;
 //@-
         let (__t2, __t3) = fg(f, g, matrix); f = __t2; g = __t3;
-//@+
-        proof {
-            lemma_div_multiples_vanish(nx.1, P62()); lemma_div_multiples_vanish(nx.2, P62());
-            assert(f.sv() == nx.1 && g.sv() == nx.2);
-        }
-//@-
         let (__t4, __t5) = de(&f_0, inverse, matrix, d, e); d = __t4; e = __t5;
 //@+
         proof {
-            lemma_de_step(mm, x, aa, dd, ee, st.1, st.2, tm.0, tm.1, d.sv(), nx.1);
-            lemma_de_step(mm, x, aa, dd, ee, st.1, st.2, tm.2, tm.3, e.sv(), nx.2);
+            let f2 = f.sv(); let g2 = g.sv();
+            if mm != 0 {
+                if first_even {
+                    lemma_round_even_first(mm, x, f0w, g0w, d2, tm, f2, g2);
+                    assert((62 * (i + 1)) as nat == 62nat);
+                } else {
+                    lemma_round_normal((62 * i) as nat, s0, meff + x, st, f0w, g0w, d2, tm, f2, g2);
+                    assert((62 * i) as nat + 62 == (62 * (i + 1)) as nat);
+                    if mm % 2 == 1 { lemma_divsteps((62 * (i + 1)) as nat, s0, bnd); } else { lemma_even_start((62 * (i + 1)) as nat, mm, x); }
+                    if dm {
+                        lemma_de_step(mm, x, aa, dd, ee, st.1, st.2, tm.0, tm.1, d.sv(), f2);
+                        lemma_de_step(mm, x, aa, dd, ee, st.1, st.2, tm.2, tm.3, e.sv(), g2);
+                    }
+                }
+            } else {
+                if zp {
+                    sg_p2_pos((62 * i) as nat);
+                    assert(st.2 >= 0) by (nonlinear_arith) requires st.2 * p2((62 * i) as nat) == x, x >= 0, p2((62 * i) as nat) > 0;
+                    lemma_round_zero_pre(st.2, g0w, ee, dl, d2, tm, f2, g2, d.sv(), e.sv());
+                    assert(tm.0 * dd == tm.0 * 0 && tm.2 * dd == tm.2 * 0) by (nonlinear_arith) requires dd == 0;
+                    assert(tm.0 * st.1 == tm.0 * 0 && tm.2 * st.1 == tm.2 * 0) by (nonlinear_arith) requires st.1 == 0;
+                    if g0w == 0 {
+                        sg_p2_add((62 * i) as nat, 62);
+                        assert((62 * i) as nat + 62 == (62 * (i + 1)) as nat);
+                        assert(g2 * p2((62 * (i + 1)) as nat) == x) by (nonlinear_arith)
+                            requires g2 * P62() == st.2, st.2 * p2((62 * i) as nat) == x, p2((62 * (i + 1)) as nat) == p2((62 * i) as nat) * P62();
+                        sg_p2_pos((62 * (i + 1)) as nat);
+                        assert(0 <= g2 <= x) by (nonlinear_arith) requires g2 * p2((62 * (i + 1)) as nat) == x, p2((62 * (i + 1)) as nat) >= 1, x >= 0;
+                    } else {
+                        // the swap happened
+                        sg_p2_pos((62 * i) as nat);
+                        assert(st.2 <= x) by (nonlinear_arith) requires st.2 * p2((62 * i) as nat) == x, p2((62 * i) as nat) >= 1, st.2 >= 0;
+                        if x % 2 == 1 {
+                            if i > 0 {
+                                sg_p2_succ((62 * i - 1) as nat);
+                                assert(x == 2 * (st.2 * p2((62 * i - 1) as nat))) by (nonlinear_arith)
+                                    requires st.2 * p2((62 * i) as nat) == x, p2((62 * i) as nat) == 2 * p2((62 * i - 1) as nat);
+                                assert(false);
+                            }
+                            sg_p2_succ(0);
+                            assert((62 * i) as nat == 0nat);
+                            assert(st.2 == x) by (nonlinear_arith) requires st.2 * p2(0) == x, p2(0) == 1;
+                        }
+                    }
+                } else {
+                    lemma_round_g_zero(dl, st.1, f0w, dd, ee, d2, tm, f2, g2, d.sv(), e.sv());
+                    assert(tm.1 * st.2 == tm.1 * 0 && tm.3 * st.2 == tm.3 * 0) by (nonlinear_arith) requires st.2 == 0;
+                }
+            }
         }
+        proof { if mm == 0 && zp && g0w != 0 { zp = false; } }
 //@-
         i += 1;
     }
 //@+
     proof {
-        lemma_divsteps((62 * i) as nat, s0, bnd);
+        if mm == 0 && zp {
+            sg_p2_pos((62 * i) as nat);
+            assert(g.sv() == 0) by (nonlinear_arith) requires g.sv() * p2((62 * i) as nat) == x, 0 <= x < p2((62 * i) as nat), p2((62 * i) as nat) > 0;
+        }
+    }
+    proof {
         assert(g.sv() == 0);
         assert(igcd(f.sv(), 0) == iabs(f.sv()));
-        assert(igcd(mm, x) == sg_gcd(mm as nat, x as nat));
+        if mm != 0 {
+            assert(i >= 1 || mm % 2 == 1) by { if i == 0 && mm % 2 == 0 { assert(x == 0); } }
+            if mm % 2 == 1 { lemma_divsteps((62 * i) as nat, s0, bnd); } else { lemma_even_start((62 * i) as nat, mm, x); }
+            assert(igcd(mm, x) == sg_gcd(mm as nat, x as nat));
+        } else {
+            // gcd(0, x) = x
+            assert(sg_gcd(0, x as nat) == x) by { if x > 0 { lemma_small_mod(0, x as nat); assert(sg_gcd(0, x as nat) == sg_gcd(x as nat, 0nat % (x as nat))); } }
+            if zp { sg_p2_pos((62 * i) as nat); assert(x == 0) by (nonlinear_arith) requires g.sv() * p2((62 * i) as nat) == x, g.sv() == 0; }
+        }
     }
 //@-
     debug_assert!(g.eq(&UnsatInt::ZERO()).to_bool_vartime());
@@ -2674,34 +3636,41 @@ pub const fn divsteps_vartime<const LIMBS: usize>(
     inverse: i64,
 ) -> (ret__: (UnsatInt<LIMBS>, UnsatInt<LIMBS>))
 //@+
-    requires e.wf(), f_0.wf(), g.wf(), LIMBS <= SG_MAX_UNSAT(),
-        f_0.sv() % 2 == 1, f_0.sv() >= 1, g.sv() >= 0,
-        f_0.sv() * B() <= q62(LIMBS as nat), g.sv() * B() <= q62(LIMBS as nat),
-        0 <= inverse < 0x4000_0000_0000_0000, (f_0.sv() * inverse as int) % P62() == 1,
-        -2 * f_0.sv() < e.sv() <= f_0.sv()
+    // domain: f_0 odd (modular inversion, gcd), f_0 == 0 (Uint::inv_mod with a zero modulus, gcd(0, g)), or f_0 even and g odd (Uint::gcd)
+    requires e.wf(), f_0.wf(), g.wf(), 2 <= LIMBS <= SG_MAX_UNSAT(),
+        f_0.sv() >= 0, g.sv() >= 0, f_0.sv() * B() <= q62(LIMBS as nat), g.sv() * B() <= q62(LIMBS as nat),
+        f_0.sv() % 2 == 1 || f_0.sv() == 0 || g.sv() % 2 == 1,
+        f_0.sv() == 0 ==> 0 <= e.sv() <= 1,
     ensures ret__.0.wf(), ret__.1.wf(),
-        // |f| = gcd(f_0, g)
-        ab(ret__.1.sv()) == sg_gcd(f_0.sv() as nat, g.sv() as nat),
+        // |f| = gcd(f_0, g)   (f_0 == 0 with an even non-zero g: f is the odd part of g)
+        (f_0.sv() != 0 || g.sv() % 2 == 1 || g.sv() == 0) ==> ab(ret__.1.sv()) == sg_gcd(f_0.sv() as nat, g.sv() as nat),
         ab(ret__.1.sv()) <= max_int(f_0.sv(), g.sv()),
-        // d in (-2M, M] (in (-2M, M) when e < M) and d * g ≡ f * e (mod M), M = f_0
-        -2 * f_0.sv() < ret__.0.sv() <= f_0.sv(), e.sv() < f_0.sv() ==> ret__.0.sv() < f_0.sv(),
-        cong(ret__.0.sv() * g.sv(), ret__.1.sv() * e.sv(), f_0.sv())
+        f_0.sv() == 0 ==> (ret__.1.sv() >= 0 && 0 <= ret__.0.sv() <= 1),
+        // f_0 = M odd with its inverse modulo 2^62, e in (-2M, M]:  d in (-2M, M] (in (-2M, M) when e < M) and d * g ≡ f * e (mod M)
+        ds_dpre(f_0.sv(), inverse as int, e.sv(), LIMBS as nat) ==> (
+            -2 * f_0.sv() < ret__.0.sv() <= f_0.sv() && (e.sv() < f_0.sv() ==> ret__.0.sv() < f_0.sv())
+            && cong(ret__.0.sv() * g.sv(), ret__.1.sv() * e.sv(), f_0.sv()))
 //@-
 {
 //@+
-    let ghost mm = f_0.sv(); let ghost x = g.sv(); let ghost aa = e.sv(); let ghost s0 = (1int, mm, x);
+    let ghost mm = f_0.sv(); let ghost x = g.sv(); let ghost aa = e.sv();
+    let ghost meff = if mm % 2 == 1 { mm } else { mm + x }; let ghost s0 = (1int, meff, x);
     let ghost bnd = max_int(mm, x); let ghost n = LIMBS as nat; let ghost q = q62(n);
+    let ghost dm = ds_dpre(mm, inverse as int, aa, n);
+    let ghost mut zp: bool = true;
     proof {
         f_0.lemma_range(); g.lemma_range(); e.lemma_range(); lemma2_to64_rest(); lemma_q62_ge(n); lemma_q62_pow2(n);
         assert(p2(62) == P62());
+        sg_p2_succ(0);
     }
     let ghost mut i: nat = 0;
-    let ghost m0 = sg_iterations(62 * LIMBS) as nat;
+    let ghost m0: nat = if mm == 0 { LIMBS as nat } else { sg_iterations(62 * LIMBS) as nat };
     proof {
-        // termination: after m0 rounds g is 0 (Theorem 11.2 with d = 62 LIMBS) and stays 0
+        // termination: f_0 != 0: after m0 rounds g is 0 (Theorem 11.2 / its extension with d = 62 LIMBS) and stays 0; f_0 == 0: g < 2^(62 LIMBS)
         assert(2 * mm < p2(62 * n) && 2 * x < p2(62 * n));
         assert(62 * n == (62 * LIMBS) as nat);
-        axiom_bernstein_yang_bound(mm, x, (62 * LIMBS) as nat, m0);
+        if mm % 2 == 1 { axiom_bernstein_yang_bound(mm, x, (62 * LIMBS) as nat, m0); }
+        else if mm != 0 { axiom_bernstein_yang_bound_even_f_odd_g(mm, x, (62 * LIMBS) as nat, m0); }
         assert(m0 <= 0x1000_0000);
     }
 //@-
@@ -2712,78 +3681,152 @@ pub const fn divsteps_vartime<const LIMBS: usize>(
 //@+
     proof {
         let d0 = d.sv(); let f0v = f.sv(); let e0 = e.sv(); let g0v = g.sv();
-        assert(d0 * x == 0) by (nonlinear_arith) requires d0 == 0;
-        assert(0 - f0v * aa == (-aa) * mm) by (nonlinear_arith) requires f0v == mm;
-        lemma_cong_mult(0, f0v * aa, -aa, mm);
-        assert(e0 * x - g0v * aa == 0 * mm) by (nonlinear_arith) requires e0 == aa, g0v == x;
-        lemma_cong_mult(e0 * x, g0v * aa, 0, mm);
+        if dm {
+            assert(d0 * x == 0) by (nonlinear_arith) requires d0 == 0;
+            assert(0 - f0v * aa == (-aa) * mm) by (nonlinear_arith) requires f0v == mm;
+            lemma_cong_mult(0, f0v * aa, -aa, mm);
+            assert(e0 * x - g0v * aa == 0 * mm) by (nonlinear_arith) requires e0 == aa, g0v == x;
+            lemma_cong_mult(e0 * x, g0v * aa, 0, mm);
+        }
+        assert(g0v * p2(0) == x) by (nonlinear_arith) requires g0v == x, p2(0) == 1;
+        assert(divsteps_n(0, s0) == s0);
     }
 //@-
     while !g.eq(&UnsatInt::ZERO()).to_bool_vartime()
 //@+
         invariant
-            m0 <= 0x1000_0000, divsteps_n((62 * m0) as nat, s0).2 == 0, i <= m0,
-            f.wf(), g.wf(), d.wf(), e.wf(), f_0.wf(), mm == f_0.sv(), n == LIMBS as nat, q == q62(n), LIMBS <= SG_MAX_UNSAT(),
-            mm % 2 == 1, mm >= 1, x >= 0, mm * B() <= q, x * B() <= q, bnd == max_int(mm, x), s0 == (1int, mm, x), p2(62) == P62(),
-            0 <= inverse < 0x4000_0000_0000_0000, (mm * inverse as int) % P62() == 1,
-            (delta as int, f.sv(), g.sv()) == divsteps_n((62 * i) as nat, s0),
-            ab(delta as int) <= 1 + 62 * i,
-            cong(d.sv() * x, f.sv() * aa, mm), cong(e.sv() * x, g.sv() * aa, mm),
-            -2 * mm < d.sv() <= mm, -2 * mm < e.sv() <= mm, aa < mm ==> (d.sv() < mm && e.sv() < mm),
+            m0 <= 0x1000_0000, mm != 0 ==> divsteps_n((62 * m0) as nat, s0).2 == 0, mm == 0 ==> m0 == LIMBS, i <= m0, 2 * x < p2(62 * n),
+            f.wf(), g.wf(), d.wf(), e.wf(), f_0.wf(), mm == f_0.sv(), n == LIMBS as nat, q == q62(n), 2 <= LIMBS <= SG_MAX_UNSAT(),
+            mm >= 0, x >= 0, mm * B() <= q, x * B() <= q, bnd == max_int(mm, x), meff == (if mm % 2 == 1 { mm } else { mm + x }), s0 == (1int, meff, x),
+            p2(62) == P62(), mm % 2 == 1 || mm == 0 || x % 2 == 1, dm == ds_dpre(mm, inverse as int, aa, n),
+            ab(delta as int) <= 1 + 62 * i, ab(f.sv()) <= bnd, ab(g.sv()) <= bnd,
+            mm != 0 ==> ((i == 0 ==> (delta as int, f.sv(), g.sv()) == (1int, mm, x))
+                && ((i >= 1 || mm % 2 == 1) ==> (delta as int, f.sv(), g.sv()) == divsteps_n((62 * i) as nat, s0))),
+            dm ==> (cong(d.sv() * x, f.sv() * aa, mm) && cong(e.sv() * x, g.sv() * aa, mm)
+                && -2 * mm < d.sv() <= mm && -2 * mm < e.sv() <= mm && (aa < mm ==> (d.sv() < mm && e.sv() < mm))),
+            mm == 0 ==> ((zp ==> (f.sv() == 0 && delta == 1 + 62 * i && g.sv() * p2((62 * i) as nat) == x && d.sv() == 0 && 0 <= e.sv() <= 1))
+                && (!zp ==> (g.sv() == 0 && f.sv() % 2 == 1 && 0 < f.sv() <= x && (x % 2 == 1 ==> f.sv() == x) && 0 <= d.sv() <= 1 && e.sv() == 0))),
         decreases m0 - i
 //@-
 {
 //@+
         proof {
-            if i >= m0 {
+            if mm != 0 && i >= m0 {
                 lemma_divsteps_add((62 * m0) as nat, (62 * (i - m0)) as nat, s0);
                 assert((62 * m0) as nat + (62 * (i - m0)) as nat == (62 * i) as nat);
                 lemma_divsteps_g_zero((62 * (i - m0)) as nat, divsteps_n((62 * m0) as nat, s0));
+                assert(i >= 1 || mm % 2 == 1) by { if i == 0 { assert(m0 == 0); assert(divsteps_n(0, s0) == s0); } }
                 assert(false);
             }
+            if mm == 0 {
+                // g != 0, so still before the swap, and g * 2^(62 i) = x < 2^(62 LIMBS)
+                assert(zp);
+                if i >= m0 {
+                    sg_p2_mono(62 * n, (62 * i) as nat);
+                    g.lemma_range(); sg_p2_pos((62 * i) as nat);
+                    assert(g.sv() >= 0) by (nonlinear_arith) requires g.sv() * p2((62 * i) as nat) == x, x >= 0, p2((62 * i) as nat) > 0;
+                    assert(g.sv() != 0);
+                    assert(false) by (nonlinear_arith) requires g.sv() * p2((62 * i) as nat) == x, g.sv() >= 1, 2 * x < p2(62 * n), p2(62 * n) <= p2((62 * i) as nat);
+                }
+            }
         }
-        let ghost st = (delta as int, f.sv(), g.sv()); let ghost zt = (delta as int, f.0@[0] as int, g.0@[0] as int);
-        let ghost dd = d.sv(); let ghost ee = e.sv();
+        let ghost st = (delta as int, f.sv(), g.sv()); let ghost f0w = f.0@[0] as int; let ghost g0w = g.0@[0] as int;
+        let ghost dd = d.sv(); let ghost ee = e.sv(); let ghost dl = delta as int;
+        let ghost first_even = mm != 0 && mm % 2 == 0 && i == 0;
         proof {
-            lemma_divsteps((62 * i) as nat, s0, bnd);
             lemma_low_limb(f); lemma_low_limb(g);
             assert(f.0@[0] <= 0x3fff_ffff_ffff_ffffu64 && g.0@[0] <= 0x3fff_ffff_ffff_ffffu64);
+            if mm != 0 && !first_even {
+                if mm % 2 == 1 { lemma_divsteps((62 * i) as nat, s0, bnd); } else { lemma_even_start((62 * i) as nat, mm, x); }
+            }
+            if mm == 0 && zp {
+                // f == 0: its low limb is 0
+                let kk = lemma_cong_wit(0, f0w, P62());
+                assert(f0w == 0) by (nonlinear_arith) requires 0 - f0w == kk * P62(), 0 <= f0w < P62();
+            }
+            if mm == 0 && !zp {
+                let kk = lemma_cong_wit(0, g0w, P62());
+                assert(g0w == 0) by (nonlinear_arith) requires 0 - g0w == kk * P62(), 0 <= g0w < P62();
+            }
+            // room for fg
+            assert(4 * P62() * bnd <= q);
         }
 //@-
         let (__t0, __t1) = jump(&f.0, &g.0, delta); delta = __t0; matrix = __t1;
 //@+
-        let ghost tm = mt(matrix); let ghost nx = divsteps_n(62, st);
-        proof {
-            lemma_divsteps_congr(62, 62, st, zt);
-            lemma_divsteps(62, st, bnd);
-            lemma_divsteps_add((62 * i) as nat, 62, s0);
-            lemma_delta_bound(62, st);
-            assert(tm == tmat(62, st));
-            assert((62 * i) as nat + 62 == (62 * (i + 1)) as nat);
-        }
+        let ghost tm = mt(matrix); let ghost d2 = delta as int;
 //@-
         let (__t2, __t3) = fg(f, g, matrix); f = __t2; g = __t3;
-//@+
-        proof {
-            lemma_div_multiples_vanish(nx.1, P62()); lemma_div_multiples_vanish(nx.2, P62());
-            assert(f.sv() == nx.1 && g.sv() == nx.2);
-        }
-//@-
         let (__t4, __t5) = de(&f_0, inverse, matrix, d, e); d = __t4; e = __t5;
 //@+
         proof {
-            lemma_de_step(mm, x, aa, dd, ee, st.1, st.2, tm.0, tm.1, d.sv(), nx.1);
-            lemma_de_step(mm, x, aa, dd, ee, st.1, st.2, tm.2, tm.3, e.sv(), nx.2);
+            let f2 = f.sv(); let g2 = g.sv();
+            if mm != 0 {
+                if first_even {
+                    lemma_round_even_first(mm, x, f0w, g0w, d2, tm, f2, g2);
+                    assert((62 * (i + 1)) as nat == 62nat);
+                } else {
+                    lemma_round_normal((62 * i) as nat, s0, meff + x, st, f0w, g0w, d2, tm, f2, g2);
+                    assert((62 * i) as nat + 62 == (62 * (i + 1)) as nat);
+                    if mm % 2 == 1 { lemma_divsteps((62 * (i + 1)) as nat, s0, bnd); } else { lemma_even_start((62 * (i + 1)) as nat, mm, x); }
+                    if dm {
+                        lemma_de_step(mm, x, aa, dd, ee, st.1, st.2, tm.0, tm.1, d.sv(), f2);
+                        lemma_de_step(mm, x, aa, dd, ee, st.1, st.2, tm.2, tm.3, e.sv(), g2);
+                    }
+                }
+            } else {
+                if zp {
+                    sg_p2_pos((62 * i) as nat);
+                    assert(st.2 >= 0) by (nonlinear_arith) requires st.2 * p2((62 * i) as nat) == x, x >= 0, p2((62 * i) as nat) > 0;
+                    lemma_round_zero_pre(st.2, g0w, ee, dl, d2, tm, f2, g2, d.sv(), e.sv());
+                    assert(tm.0 * dd == tm.0 * 0 && tm.2 * dd == tm.2 * 0) by (nonlinear_arith) requires dd == 0;
+                    assert(tm.0 * st.1 == tm.0 * 0 && tm.2 * st.1 == tm.2 * 0) by (nonlinear_arith) requires st.1 == 0;
+                    if g0w == 0 {
+                        sg_p2_add((62 * i) as nat, 62);
+                        assert((62 * i) as nat + 62 == (62 * (i + 1)) as nat);
+                        assert(g2 * p2((62 * (i + 1)) as nat) == x) by (nonlinear_arith)
+                            requires g2 * P62() == st.2, st.2 * p2((62 * i) as nat) == x, p2((62 * (i + 1)) as nat) == p2((62 * i) as nat) * P62();
+                        sg_p2_pos((62 * (i + 1)) as nat);
+                        assert(0 <= g2 <= x) by (nonlinear_arith) requires g2 * p2((62 * (i + 1)) as nat) == x, p2((62 * (i + 1)) as nat) >= 1, x >= 0;
+                    } else {
+                        // the swap happened
+                        sg_p2_pos((62 * i) as nat);
+                        assert(st.2 <= x) by (nonlinear_arith) requires st.2 * p2((62 * i) as nat) == x, p2((62 * i) as nat) >= 1, st.2 >= 0;
+                        if x % 2 == 1 {
+                            if i > 0 {
+                                sg_p2_succ((62 * i - 1) as nat);
+                                assert(x == 2 * (st.2 * p2((62 * i - 1) as nat))) by (nonlinear_arith)
+                                    requires st.2 * p2((62 * i) as nat) == x, p2((62 * i) as nat) == 2 * p2((62 * i - 1) as nat);
+                                assert(false);
+                            }
+                            sg_p2_succ(0);
+                            assert((62 * i) as nat == 0nat);
+                            assert(st.2 == x) by (nonlinear_arith) requires st.2 * p2(0) == x, p2(0) == 1;
+                        }
+                    }
+                } else {
+                    lemma_round_g_zero(dl, st.1, f0w, dd, ee, d2, tm, f2, g2, d.sv(), e.sv());
+                    assert(tm.1 * st.2 == tm.1 * 0 && tm.3 * st.2 == tm.3 * 0) by (nonlinear_arith) requires st.2 == 0;
+                }
+            }
         }
+        proof { if mm == 0 && zp && g0w != 0 { zp = false; } }
         proof { i = i + 1; }
 //@-
     }
 //@+
     proof {
-        lemma_divsteps((62 * i) as nat, s0, bnd);
         assert(g.sv() == 0);
         assert(igcd(f.sv(), 0) == iabs(f.sv()));
-        assert(igcd(mm, x) == sg_gcd(mm as nat, x as nat));
+        if mm != 0 {
+            assert(i >= 1 || mm % 2 == 1) by { if i == 0 && mm % 2 == 0 { assert(x == 0); } }
+            if mm % 2 == 1 { lemma_divsteps((62 * i) as nat, s0, bnd); } else { lemma_even_start((62 * i) as nat, mm, x); }
+            assert(igcd(mm, x) == sg_gcd(mm as nat, x as nat));
+        } else {
+            // gcd(0, x) = x
+            assert(sg_gcd(0, x as nat) == x) by { if x > 0 { lemma_small_mod(0, x as nat); assert(sg_gcd(0, x as nat) == sg_gcd(x as nat, 0nat % (x as nat))); } }
+            if zp { sg_p2_pos((62 * i) as nat); assert(x == 0) by (nonlinear_arith) requires g.sv() * p2((62 * i) as nat) == x, g.sv() == 0; }
+        }
     }
 //@-
     (d, f)
@@ -2793,15 +3836,18 @@ pub const fn divsteps_vartime<const LIMBS: usize>(
 impl<const SAT_LIMBS: usize, const UNSAT_LIMBS: usize> SafeGcdInverter<SAT_LIMBS, UNSAT_LIMBS> {
 pub const fn inv(&self, value: &Uint<SAT_LIMBS>) -> (ret__: ConstCtOption<Uint<SAT_LIMBS>>)
 //@+
+    // total for an odd modulus and for the modulus 0 (see `wf`); the functional facts hold for an odd modulus M
     requires self.wf()
     ensures ret__.is_some.wf(),
-        // some exactly when value is coprime to the modulus
-        ret__.is_some.t() == (sg_gcd(self.m() as nat, value.v() as nat) == 1),
-        // then 0 <= ret <= M (ret < M when the adjuster is < M, i.e. always unless M == 1) and ret * value ≡ adjuster (mod M)
-        0 <= ret__.value.v() <= self.m(),
-        self.adjuster.sv() < self.m() ==> ret__.value.v() < self.m(),
-        ret__.is_some.t() ==> cong(ret__.value.v() * value.v(), self.adjuster.sv(), self.m()),
-        ret__.is_some.t() ==> (ret__.value.v() * value.v()) % self.m() == self.adjuster.sv() % self.m()
+        self.m() % 2 == 1 ==> (
+            // some exactly when value is coprime to the modulus
+            ret__.is_some.t() == (sg_gcd(self.m() as nat, value.v() as nat) == 1)
+            // 0 <= ret <= M (ret < M when the adjuster is < M, i.e. always unless M == 1) and, when some, ret * value ≡ adjuster (mod M)
+            && 0 <= ret__.value.v() <= self.m()
+            && (self.adjuster.sv() < self.m() ==> ret__.value.v() < self.m())
+            && (ret__.is_some.t() ==> cong(ret__.value.v() * value.v(), self.adjuster.sv(), self.m()))
+            && (ret__.is_some.t() ==> (ret__.value.v() * value.v()) % self.m() == self.adjuster.sv() % self.m())),
+        self.m() == 0 ==> 0 <= ret__.value.v() <= 1
 //@-
 {
 //@+
@@ -2828,8 +3874,10 @@ pub const fn inv(&self, value: &Uint<SAT_LIMBS>) -> (ret__: ConstCtOption<Uint<S
         proof {
             let fv = f.sv(); let dv = d.sv(); let r = ret.sv();
             ret.lemma_range();
+            lemma_bp_succ((SAT_LIMBS - 1) as nat);
+            assert(bp(SAT_LIMBS as nat) >= 2) by (nonlinear_arith) requires bp(SAT_LIMBS as nat) == B() * bp((SAT_LIMBS - 1) as nat), bp((SAT_LIMBS - 1) as nat) >= 1;
             lemma_small_mod(r as nat, bp(SAT_LIMBS as nat) as nat);
-            if is_some.t() {
+            if mm % 2 == 1 && is_some.t() {
                 lemma_inv_final(mm, x, aa, dv, fv, r);
                 lemma_cong_to_mod(r * x, aa, mm);
             }
@@ -2843,15 +3891,18 @@ pub const fn inv(&self, value: &Uint<SAT_LIMBS>) -> (ret__: ConstCtOption<Uint<S
 impl<const SAT_LIMBS: usize, const UNSAT_LIMBS: usize> SafeGcdInverter<SAT_LIMBS, UNSAT_LIMBS> {
 pub const fn inv_vartime(&self, value: &Uint<SAT_LIMBS>) -> (ret__: ConstCtOption<Uint<SAT_LIMBS>>)
 //@+
+    // total for an odd modulus and for the modulus 0 (see `wf`); the functional facts hold for an odd modulus M
     requires self.wf()
     ensures ret__.is_some.wf(),
-        // some exactly when value is coprime to the modulus
-        ret__.is_some.t() == (sg_gcd(self.m() as nat, value.v() as nat) == 1),
-        // then 0 <= ret <= M (ret < M when the adjuster is < M, i.e. always unless M == 1) and ret * value ≡ adjuster (mod M)
-        0 <= ret__.value.v() <= self.m(),
-        self.adjuster.sv() < self.m() ==> ret__.value.v() < self.m(),
-        ret__.is_some.t() ==> cong(ret__.value.v() * value.v(), self.adjuster.sv(), self.m()),
-        ret__.is_some.t() ==> (ret__.value.v() * value.v()) % self.m() == self.adjuster.sv() % self.m()
+        self.m() % 2 == 1 ==> (
+            // some exactly when value is coprime to the modulus
+            ret__.is_some.t() == (sg_gcd(self.m() as nat, value.v() as nat) == 1)
+            // 0 <= ret <= M (ret < M when the adjuster is < M, i.e. always unless M == 1) and, when some, ret * value ≡ adjuster (mod M)
+            && 0 <= ret__.value.v() <= self.m()
+            && (self.adjuster.sv() < self.m() ==> ret__.value.v() < self.m())
+            && (ret__.is_some.t() ==> cong(ret__.value.v() * value.v(), self.adjuster.sv(), self.m()))
+            && (ret__.is_some.t() ==> (ret__.value.v() * value.v()) % self.m() == self.adjuster.sv() % self.m())),
+        self.m() == 0 ==> 0 <= ret__.value.v() <= 1
 //@-
 {
 //@+
@@ -2878,8 +3929,10 @@ pub const fn inv_vartime(&self, value: &Uint<SAT_LIMBS>) -> (ret__: ConstCtOptio
         proof {
             let fv = f.sv(); let dv = d.sv(); let r = ret.sv();
             ret.lemma_range();
+            lemma_bp_succ((SAT_LIMBS - 1) as nat);
+            assert(bp(SAT_LIMBS as nat) >= 2) by (nonlinear_arith) requires bp(SAT_LIMBS as nat) == B() * bp((SAT_LIMBS - 1) as nat), bp((SAT_LIMBS - 1) as nat) >= 1;
             lemma_small_mod(r as nat, bp(SAT_LIMBS as nat) as nat);
-            if is_some.t() {
+            if mm % 2 == 1 && is_some.t() {
                 lemma_inv_final(mm, x, aa, dv, fv, r);
                 lemma_cong_to_mod(r * x, aa, mm);
             }
@@ -2893,7 +3946,9 @@ pub const fn inv_vartime(&self, value: &Uint<SAT_LIMBS>) -> (ret__: ConstCtOptio
 impl<const SAT_LIMBS: usize, const UNSAT_LIMBS: usize> SafeGcdInverter<SAT_LIMBS, UNSAT_LIMBS> {
 pub const fn gcd(f: &Uint<SAT_LIMBS>, g: &Uint<SAT_LIMBS>) -> (ret__: Uint<SAT_LIMBS>)
 //@+
-    requires SAT_LIMBS >= 1, sg_nlimbs_ok(SAT_LIMBS as int, UNSAT_LIMBS as int), UNSAT_LIMBS <= SG_MAX_UNSAT(), f.v() % 2 == 1
+    // domain of the callers: Odd::gcd_vartime passes an odd f, Uint::gcd an odd g (f possibly even) or f = g = 0
+    requires SAT_LIMBS >= 1, sg_nlimbs_ok(SAT_LIMBS as int, UNSAT_LIMBS as int), UNSAT_LIMBS <= SG_MAX_UNSAT(),
+        f.v() % 2 == 1 || g.v() % 2 == 1 || (f.v() == 0 && g.v() == 0)
     ensures ret__.v() == sg_gcd(f.v() as nat, g.v() as nat)
 //@-
 {
@@ -2911,7 +3966,7 @@ pub const fn gcd(f: &Uint<SAT_LIMBS>, g: &Uint<SAT_LIMBS>) -> (ret__: Uint<SAT_L
         let f = UnsatInt::from_uint(f);
         let g = UnsatInt::from_uint(g);
 //@+
-        proof { assert((fv * inverse as int) % P62() == 1); f.lemma_range(); g.lemma_range(); lemma_q62_ge(UNSAT_LIMBS as nat); }
+        proof { if fv % 2 == 1 { assert((fv * inverse as int) % P62() == 1); } f.lemma_range(); g.lemma_range(); lemma_q62_ge(UNSAT_LIMBS as nat); }
 //@-
         let (_, mut f) = divsteps(e, f, g, inverse);
 //@+
@@ -2932,7 +3987,9 @@ pub const fn gcd(f: &Uint<SAT_LIMBS>, g: &Uint<SAT_LIMBS>) -> (ret__: Uint<SAT_L
 impl<const SAT_LIMBS: usize, const UNSAT_LIMBS: usize> SafeGcdInverter<SAT_LIMBS, UNSAT_LIMBS> {
 pub const fn gcd_vartime(f: &Uint<SAT_LIMBS>, g: &Uint<SAT_LIMBS>) -> (ret__: Uint<SAT_LIMBS>)
 //@+
-    requires SAT_LIMBS >= 1, sg_nlimbs_ok(SAT_LIMBS as int, UNSAT_LIMBS as int), UNSAT_LIMBS <= SG_MAX_UNSAT(), f.v() % 2 == 1
+    // domain of the callers: Odd::gcd_vartime passes an odd f, Uint::gcd an odd g (f possibly even) or f = g = 0
+    requires SAT_LIMBS >= 1, sg_nlimbs_ok(SAT_LIMBS as int, UNSAT_LIMBS as int), UNSAT_LIMBS <= SG_MAX_UNSAT(),
+        f.v() % 2 == 1 || g.v() % 2 == 1 || (f.v() == 0 && g.v() == 0)
     ensures ret__.v() == sg_gcd(f.v() as nat, g.v() as nat)
 //@-
 {
@@ -2950,7 +4007,7 @@ pub const fn gcd_vartime(f: &Uint<SAT_LIMBS>, g: &Uint<SAT_LIMBS>) -> (ret__: Ui
         let f = UnsatInt::from_uint(f);
         let g = UnsatInt::from_uint(g);
 //@+
-        proof { assert((fv * inverse as int) % P62() == 1); f.lemma_range(); g.lemma_range(); lemma_q62_ge(UNSAT_LIMBS as nat); }
+        proof { if fv % 2 == 1 { assert((fv * inverse as int) % P62() == 1); } f.lemma_range(); g.lemma_range(); lemma_q62_ge(UNSAT_LIMBS as nat); }
 //@-
         let (_, mut f) = divsteps_vartime(e, f, g, inverse);
 //@+
